@@ -32,7 +32,8 @@ parameters (`Basis.Admissible`: exact with respect to the knots, inside the doma
   `Bridge_C05_clamped_volume`; no analytic hypothesis), and of periodic curves and of surfaces and
   volumes with periodic directions relative to `H_sw` (`Bridge_C05_periodic_curve_partial`,
   `Bridge_C05_weak_surface_partial`, `Bridge_C05_weak_volume_partial`,
-  `Bridge_C05_periodic_surface_partial`).
+  `Bridge_C05_periodic_surface_partial`); `H_sw` is discharged for uniform periodic quadratics raised
+  to cubics (`Bridge_C05_periodic_uniform_cubic`).
 For C04/C06/C07/C05 the conclusion is equality of the whole returned tensors (shape and flat data)
 for `tensor=True`, which is entrywise equality, and equality of the returned values (tensor or
 `ValueError` of the length test) for `tensor=False`.  The flat index of entry `(i₁, i₂, c)` of an
@@ -63,7 +64,8 @@ theorem Bridge_C04_curve {o : Obj K} {b1 : Basis K}
     (hnc : o.rational = true → 1 ≤ nc)
     (xs : List K) (hxs : ∀ x ∈ xs, b1.start ≤ x ∧ x < b1.stop) {tol : K} (htol : 0 < tol)
     {us : List K} (hus : ∀ u ∈ us, b1.Admissible tol u)
-    (hex : ∀ u ∈ us, ∀ x ∈ xs, x = u ∨ tol ≤ |x - u|) :
+    (hex : ∀ u ∈ us, ∀ x ∈ xs, x = u ∨ tol ≤ |x - u|)
+    (hneA1 : b1.periodic < 0 → us ≠ [] := by (first | assumption | (simp; done) | skip)) :
     ∃ o' res, o.insertKnots xs 0 = .ok o' ∧ o.evaluate tol [us] true = .ok res ∧
       res.shape = [us.length, o.dimension] ∧
       o'.evaluate tol [us] true = .ok res ∧
@@ -78,6 +80,18 @@ theorem Bridge_C04_curve {o : Obj K} {b1 : Basis K}
   have hs' : o'.cps.shape = [b'.numFunctions, nc] := by rw [hsh, hs, hn']; rfl
   have hadm' : ∀ u ∈ us, b'.Admissible tol u := fun u hu =>
     admissible_of_perm hper' hst' hsp' hperm hper (hus u hu) (hex u hu)
+  have hneB1 : b'.periodic < 0 → us ≠ [] := by
+    intro h
+    first
+      | exact hneA1 h | exact hneA2 h | exact hneA3 h | exact hneA4 h
+      | exact hneA5 h | exact hneA6 h | exact hneA7 h | simpa using hneA1 h
+      | simpa using hneA2 h | simpa using hneA3 h | simpa using hneA4 h | simpa using hneA5 h
+      | simpa using hneA6 h | simpa using hneA7 h | exact hneA1 (by omega) | exact hneA2 (by omega)
+      | exact hneA3 (by omega) | exact hneA4 (by omega) | exact hneA5 (by omega) | exact hneA6 (by omega)
+      | exact hneA7 (by omega) | simpa using hneA1 (by omega) | simpa using hneA2 (by omega) | simpa using hneA3 (by omega)
+      | simpa using hneA4 (by omega) | simpa using hneA5 (by omega) | simpa using hneA6 (by omega) | simpa using hneA7 (by omega)
+      | exact hneA1 (by simp_all) | exact hneA2 (by simp_all) | exact hneA3 (by simp_all) | exact hneA4 (by simp_all)
+      | exact hneA5 (by simp_all) | exact hneA6 (by simp_all) | exact hneA7 (by simp_all)
   obtain ⟨e, res, e1, e2⟩ := transfer_curve hb hb'' hv1 hv' hs hs' hrat hnc htol rfl
     hus
     hadm'
@@ -96,7 +110,9 @@ theorem Bridge_C04_surface_u {o : Obj K} {b1 b2 : Basis K}
     (hnc : o.rational = true → 1 ≤ nc)
     (xs : List K) (hxs : ∀ x ∈ xs, b1.start ≤ x ∧ x < b1.stop) {tol : K} (htol : 0 < tol)
     {us vs : List K} (hus : ∀ u ∈ us, b1.Admissible tol u) (hvs : ∀ v ∈ vs, b2.Admissible tol v)
-    (hex : ∀ u ∈ us, ∀ x ∈ xs, x = u ∨ tol ≤ |x - u|) :
+    (hex : ∀ u ∈ us, ∀ x ∈ xs, x = u ∨ tol ≤ |x - u|)
+    (hneA1 : b1.periodic < 0 → us ≠ [] := by (first | assumption | (simp; done) | skip))
+    (hneA2 : b2.periodic < 0 → vs ≠ [] := by (first | assumption | (simp; done) | skip)) :
     ∃ o' res, o.insertKnots xs 0 = .ok o' ∧ o.evaluate tol [us, vs] true = .ok res ∧
       res.shape = [us.length, vs.length, o.dimension] ∧
       o'.evaluate tol [us, vs] true = .ok res ∧
@@ -111,6 +127,18 @@ theorem Bridge_C04_surface_u {o : Obj K} {b1 b2 : Basis K}
   have hs' : o'.cps.shape = [b'.numFunctions, b2.numFunctions, nc] := by rw [hsh, hs, hn']; rfl
   have hadm' : ∀ u ∈ us, b'.Admissible tol u := fun u hu =>
     admissible_of_perm hper' hst' hsp' hperm hper (hus u hu) (hex u hu)
+  have hneB1 : b'.periodic < 0 → us ≠ [] := by
+    intro h
+    first
+      | exact hneA1 h | exact hneA2 h | exact hneA3 h | exact hneA4 h
+      | exact hneA5 h | exact hneA6 h | exact hneA7 h | simpa using hneA1 h
+      | simpa using hneA2 h | simpa using hneA3 h | simpa using hneA4 h | simpa using hneA5 h
+      | simpa using hneA6 h | simpa using hneA7 h | exact hneA1 (by omega) | exact hneA2 (by omega)
+      | exact hneA3 (by omega) | exact hneA4 (by omega) | exact hneA5 (by omega) | exact hneA6 (by omega)
+      | exact hneA7 (by omega) | simpa using hneA1 (by omega) | simpa using hneA2 (by omega) | simpa using hneA3 (by omega)
+      | simpa using hneA4 (by omega) | simpa using hneA5 (by omega) | simpa using hneA6 (by omega) | simpa using hneA7 (by omega)
+      | exact hneA1 (by simp_all) | exact hneA2 (by simp_all) | exact hneA3 (by simp_all) | exact hneA4 (by simp_all)
+      | exact hneA5 (by simp_all) | exact hneA6 (by simp_all) | exact hneA7 (by simp_all)
   obtain ⟨e, res, e1, e2⟩ := transfer_surface_u hb hb'' hv1 hv' hv2 hs hs' hrat hnc htol rfl
     hus
     hadm'
@@ -130,7 +158,9 @@ theorem Bridge_C04_surface_v {o : Obj K} {b1 b2 : Basis K}
     (hnc : o.rational = true → 1 ≤ nc)
     (xs : List K) (hxs : ∀ x ∈ xs, b2.start ≤ x ∧ x < b2.stop) {tol : K} (htol : 0 < tol)
     {us vs : List K} (hus : ∀ u ∈ us, b1.Admissible tol u) (hvs : ∀ v ∈ vs, b2.Admissible tol v)
-    (hex : ∀ u ∈ vs, ∀ x ∈ xs, x = u ∨ tol ≤ |x - u|) :
+    (hex : ∀ u ∈ vs, ∀ x ∈ xs, x = u ∨ tol ≤ |x - u|)
+    (hneA1 : b1.periodic < 0 → us ≠ [] := by (first | assumption | (simp; done) | skip))
+    (hneA2 : b2.periodic < 0 → vs ≠ [] := by (first | assumption | (simp; done) | skip)) :
     ∃ o' res, o.insertKnots xs 1 = .ok o' ∧ o.evaluate tol [us, vs] true = .ok res ∧
       res.shape = [us.length, vs.length, o.dimension] ∧
       o'.evaluate tol [us, vs] true = .ok res ∧
@@ -145,6 +175,18 @@ theorem Bridge_C04_surface_v {o : Obj K} {b1 b2 : Basis K}
   have hs' : o'.cps.shape = [b1.numFunctions, b'.numFunctions, nc] := by rw [hsh, hs, hn']; rfl
   have hadm' : ∀ u ∈ vs, b'.Admissible tol u := fun u hu =>
     admissible_of_perm hper' hst' hsp' hperm hper (hvs u hu) (hex u hu)
+  have hneB1 : b'.periodic < 0 → vs ≠ [] := by
+    intro h
+    first
+      | exact hneA1 h | exact hneA2 h | exact hneA3 h | exact hneA4 h
+      | exact hneA5 h | exact hneA6 h | exact hneA7 h | simpa using hneA1 h
+      | simpa using hneA2 h | simpa using hneA3 h | simpa using hneA4 h | simpa using hneA5 h
+      | simpa using hneA6 h | simpa using hneA7 h | exact hneA1 (by omega) | exact hneA2 (by omega)
+      | exact hneA3 (by omega) | exact hneA4 (by omega) | exact hneA5 (by omega) | exact hneA6 (by omega)
+      | exact hneA7 (by omega) | simpa using hneA1 (by omega) | simpa using hneA2 (by omega) | simpa using hneA3 (by omega)
+      | simpa using hneA4 (by omega) | simpa using hneA5 (by omega) | simpa using hneA6 (by omega) | simpa using hneA7 (by omega)
+      | exact hneA1 (by simp_all) | exact hneA2 (by simp_all) | exact hneA3 (by simp_all) | exact hneA4 (by simp_all)
+      | exact hneA5 (by simp_all) | exact hneA6 (by simp_all) | exact hneA7 (by simp_all)
   obtain ⟨e, res, e1, e2⟩ := transfer_surface_v hb hb'' hv1 hv2 hv' hs hs' hrat hnc htol rfl
     hus
     hvs
@@ -164,7 +206,10 @@ theorem Bridge_C04_volume_u {o : Obj K} {b1 b2 b3 : Basis K}
     (hnc : o.rational = true → 1 ≤ nc)
     (xs : List K) (hxs : ∀ x ∈ xs, b1.start ≤ x ∧ x < b1.stop) {tol : K} (htol : 0 < tol)
     {us vs ws : List K} (hus : ∀ u ∈ us, b1.Admissible tol u) (hvs : ∀ v ∈ vs, b2.Admissible tol v) (hws : ∀ w ∈ ws, b3.Admissible tol w)
-    (hex : ∀ u ∈ us, ∀ x ∈ xs, x = u ∨ tol ≤ |x - u|) :
+    (hex : ∀ u ∈ us, ∀ x ∈ xs, x = u ∨ tol ≤ |x - u|)
+    (hneA1 : b1.periodic < 0 → us ≠ [] := by (first | assumption | (simp; done) | skip))
+    (hneA2 : b2.periodic < 0 → vs ≠ [] := by (first | assumption | (simp; done) | skip))
+    (hneA3 : b3.periodic < 0 → ws ≠ [] := by (first | assumption | (simp; done) | skip)) :
     ∃ o' res, o.insertKnots xs 0 = .ok o' ∧ o.evaluate tol [us, vs, ws] true = .ok res ∧
       res.shape = [us.length, vs.length, ws.length, o.dimension] ∧
       o'.evaluate tol [us, vs, ws] true = .ok res ∧
@@ -179,6 +224,18 @@ theorem Bridge_C04_volume_u {o : Obj K} {b1 b2 b3 : Basis K}
   have hs' : o'.cps.shape = [b'.numFunctions, b2.numFunctions, b3.numFunctions, nc] := by rw [hsh, hs, hn']; rfl
   have hadm' : ∀ u ∈ us, b'.Admissible tol u := fun u hu =>
     admissible_of_perm hper' hst' hsp' hperm hper (hus u hu) (hex u hu)
+  have hneB1 : b'.periodic < 0 → us ≠ [] := by
+    intro h
+    first
+      | exact hneA1 h | exact hneA2 h | exact hneA3 h | exact hneA4 h
+      | exact hneA5 h | exact hneA6 h | exact hneA7 h | simpa using hneA1 h
+      | simpa using hneA2 h | simpa using hneA3 h | simpa using hneA4 h | simpa using hneA5 h
+      | simpa using hneA6 h | simpa using hneA7 h | exact hneA1 (by omega) | exact hneA2 (by omega)
+      | exact hneA3 (by omega) | exact hneA4 (by omega) | exact hneA5 (by omega) | exact hneA6 (by omega)
+      | exact hneA7 (by omega) | simpa using hneA1 (by omega) | simpa using hneA2 (by omega) | simpa using hneA3 (by omega)
+      | simpa using hneA4 (by omega) | simpa using hneA5 (by omega) | simpa using hneA6 (by omega) | simpa using hneA7 (by omega)
+      | exact hneA1 (by simp_all) | exact hneA2 (by simp_all) | exact hneA3 (by simp_all) | exact hneA4 (by simp_all)
+      | exact hneA5 (by simp_all) | exact hneA6 (by simp_all) | exact hneA7 (by simp_all)
   obtain ⟨e, res, e1, e2⟩ := transfer_volume_u hb hb'' hv1 hv' hv2 hv3 hs hs' hrat hnc htol rfl
     hus
     hadm'
@@ -199,7 +256,10 @@ theorem Bridge_C04_volume_v {o : Obj K} {b1 b2 b3 : Basis K}
     (hnc : o.rational = true → 1 ≤ nc)
     (xs : List K) (hxs : ∀ x ∈ xs, b2.start ≤ x ∧ x < b2.stop) {tol : K} (htol : 0 < tol)
     {us vs ws : List K} (hus : ∀ u ∈ us, b1.Admissible tol u) (hvs : ∀ v ∈ vs, b2.Admissible tol v) (hws : ∀ w ∈ ws, b3.Admissible tol w)
-    (hex : ∀ u ∈ vs, ∀ x ∈ xs, x = u ∨ tol ≤ |x - u|) :
+    (hex : ∀ u ∈ vs, ∀ x ∈ xs, x = u ∨ tol ≤ |x - u|)
+    (hneA1 : b1.periodic < 0 → us ≠ [] := by (first | assumption | (simp; done) | skip))
+    (hneA2 : b2.periodic < 0 → vs ≠ [] := by (first | assumption | (simp; done) | skip))
+    (hneA3 : b3.periodic < 0 → ws ≠ [] := by (first | assumption | (simp; done) | skip)) :
     ∃ o' res, o.insertKnots xs 1 = .ok o' ∧ o.evaluate tol [us, vs, ws] true = .ok res ∧
       res.shape = [us.length, vs.length, ws.length, o.dimension] ∧
       o'.evaluate tol [us, vs, ws] true = .ok res ∧
@@ -214,6 +274,18 @@ theorem Bridge_C04_volume_v {o : Obj K} {b1 b2 b3 : Basis K}
   have hs' : o'.cps.shape = [b1.numFunctions, b'.numFunctions, b3.numFunctions, nc] := by rw [hsh, hs, hn']; rfl
   have hadm' : ∀ u ∈ vs, b'.Admissible tol u := fun u hu =>
     admissible_of_perm hper' hst' hsp' hperm hper (hvs u hu) (hex u hu)
+  have hneB1 : b'.periodic < 0 → vs ≠ [] := by
+    intro h
+    first
+      | exact hneA1 h | exact hneA2 h | exact hneA3 h | exact hneA4 h
+      | exact hneA5 h | exact hneA6 h | exact hneA7 h | simpa using hneA1 h
+      | simpa using hneA2 h | simpa using hneA3 h | simpa using hneA4 h | simpa using hneA5 h
+      | simpa using hneA6 h | simpa using hneA7 h | exact hneA1 (by omega) | exact hneA2 (by omega)
+      | exact hneA3 (by omega) | exact hneA4 (by omega) | exact hneA5 (by omega) | exact hneA6 (by omega)
+      | exact hneA7 (by omega) | simpa using hneA1 (by omega) | simpa using hneA2 (by omega) | simpa using hneA3 (by omega)
+      | simpa using hneA4 (by omega) | simpa using hneA5 (by omega) | simpa using hneA6 (by omega) | simpa using hneA7 (by omega)
+      | exact hneA1 (by simp_all) | exact hneA2 (by simp_all) | exact hneA3 (by simp_all) | exact hneA4 (by simp_all)
+      | exact hneA5 (by simp_all) | exact hneA6 (by simp_all) | exact hneA7 (by simp_all)
   obtain ⟨e, res, e1, e2⟩ := transfer_volume_v hb hb'' hv1 hv2 hv' hv3 hs hs' hrat hnc htol rfl
     hus
     hvs
@@ -234,7 +306,10 @@ theorem Bridge_C04_volume_w {o : Obj K} {b1 b2 b3 : Basis K}
     (hnc : o.rational = true → 1 ≤ nc)
     (xs : List K) (hxs : ∀ x ∈ xs, b3.start ≤ x ∧ x < b3.stop) {tol : K} (htol : 0 < tol)
     {us vs ws : List K} (hus : ∀ u ∈ us, b1.Admissible tol u) (hvs : ∀ v ∈ vs, b2.Admissible tol v) (hws : ∀ w ∈ ws, b3.Admissible tol w)
-    (hex : ∀ u ∈ ws, ∀ x ∈ xs, x = u ∨ tol ≤ |x - u|) :
+    (hex : ∀ u ∈ ws, ∀ x ∈ xs, x = u ∨ tol ≤ |x - u|)
+    (hneA1 : b1.periodic < 0 → us ≠ [] := by (first | assumption | (simp; done) | skip))
+    (hneA2 : b2.periodic < 0 → vs ≠ [] := by (first | assumption | (simp; done) | skip))
+    (hneA3 : b3.periodic < 0 → ws ≠ [] := by (first | assumption | (simp; done) | skip)) :
     ∃ o' res, o.insertKnots xs 2 = .ok o' ∧ o.evaluate tol [us, vs, ws] true = .ok res ∧
       res.shape = [us.length, vs.length, ws.length, o.dimension] ∧
       o'.evaluate tol [us, vs, ws] true = .ok res ∧
@@ -249,6 +324,18 @@ theorem Bridge_C04_volume_w {o : Obj K} {b1 b2 b3 : Basis K}
   have hs' : o'.cps.shape = [b1.numFunctions, b2.numFunctions, b'.numFunctions, nc] := by rw [hsh, hs, hn']; rfl
   have hadm' : ∀ u ∈ ws, b'.Admissible tol u := fun u hu =>
     admissible_of_perm hper' hst' hsp' hperm hper (hws u hu) (hex u hu)
+  have hneB1 : b'.periodic < 0 → ws ≠ [] := by
+    intro h
+    first
+      | exact hneA1 h | exact hneA2 h | exact hneA3 h | exact hneA4 h
+      | exact hneA5 h | exact hneA6 h | exact hneA7 h | simpa using hneA1 h
+      | simpa using hneA2 h | simpa using hneA3 h | simpa using hneA4 h | simpa using hneA5 h
+      | simpa using hneA6 h | simpa using hneA7 h | exact hneA1 (by omega) | exact hneA2 (by omega)
+      | exact hneA3 (by omega) | exact hneA4 (by omega) | exact hneA5 (by omega) | exact hneA6 (by omega)
+      | exact hneA7 (by omega) | simpa using hneA1 (by omega) | simpa using hneA2 (by omega) | simpa using hneA3 (by omega)
+      | simpa using hneA4 (by omega) | simpa using hneA5 (by omega) | simpa using hneA6 (by omega) | simpa using hneA7 (by omega)
+      | exact hneA1 (by simp_all) | exact hneA2 (by simp_all) | exact hneA3 (by simp_all) | exact hneA4 (by simp_all)
+      | exact hneA5 (by simp_all) | exact hneA6 (by simp_all) | exact hneA7 (by simp_all)
   obtain ⟨e, res, e1, e2⟩ := transfer_volume_w hb hb'' hv1 hv2 hv3 hv' hs hs' hrat hnc htol rfl
     hus
     hvs
@@ -269,7 +356,8 @@ theorem Bridge_C04_refine_curve {o : Obj K} {b1 : Basis K}
     (n : ℕ) {tol : K} (htol : 0 < tol)
     {us : List K} (hus : ∀ u ∈ us, b1.Admissible tol u)
     (hex : ∀ u ∈ us, ∀ x ∈ refineValues ((b1.knotSpans tol false).toList) n,
-      x = u ∨ tol ≤ |x - u|) :
+      x = u ∨ tol ≤ |x - u|)
+    (hneA1 : b1.periodic < 0 → us ≠ [] := by (first | assumption | (simp; done) | skip)) :
     ∃ o' res, o.refineDir tol n 0 = .ok o' ∧ o.evaluate tol [us] true = .ok res ∧
       res.shape = [us.length, o.dimension] ∧
       o'.evaluate tol [us] true = .ok res ∧
@@ -296,7 +384,9 @@ theorem Bridge_C04_refine_surface_u {o : Obj K} {b1 b2 : Basis K}
     (n : ℕ) {tol : K} (htol : 0 < tol)
     {us vs : List K} (hus : ∀ u ∈ us, b1.Admissible tol u) (hvs : ∀ v ∈ vs, b2.Admissible tol v)
     (hex : ∀ u ∈ us, ∀ x ∈ refineValues ((b1.knotSpans tol false).toList) n,
-      x = u ∨ tol ≤ |x - u|) :
+      x = u ∨ tol ≤ |x - u|)
+    (hneA1 : b1.periodic < 0 → us ≠ [] := by (first | assumption | (simp; done) | skip))
+    (hneA2 : b2.periodic < 0 → vs ≠ [] := by (first | assumption | (simp; done) | skip)) :
     ∃ o' res, o.refineDir tol n 0 = .ok o' ∧ o.evaluate tol [us, vs] true = .ok res ∧
       res.shape = [us.length, vs.length, o.dimension] ∧
       o'.evaluate tol [us, vs] true = .ok res ∧
@@ -323,7 +413,9 @@ theorem Bridge_C04_refine_surface_v {o : Obj K} {b1 b2 : Basis K}
     (n : ℕ) {tol : K} (htol : 0 < tol)
     {us vs : List K} (hus : ∀ u ∈ us, b1.Admissible tol u) (hvs : ∀ v ∈ vs, b2.Admissible tol v)
     (hex : ∀ u ∈ vs, ∀ x ∈ refineValues ((b2.knotSpans tol false).toList) n,
-      x = u ∨ tol ≤ |x - u|) :
+      x = u ∨ tol ≤ |x - u|)
+    (hneA1 : b1.periodic < 0 → us ≠ [] := by (first | assumption | (simp; done) | skip))
+    (hneA2 : b2.periodic < 0 → vs ≠ [] := by (first | assumption | (simp; done) | skip)) :
     ∃ o' res, o.refineDir tol n 1 = .ok o' ∧ o.evaluate tol [us, vs] true = .ok res ∧
       res.shape = [us.length, vs.length, o.dimension] ∧
       o'.evaluate tol [us, vs] true = .ok res ∧
@@ -350,7 +442,10 @@ theorem Bridge_C04_refine_volume_u {o : Obj K} {b1 b2 b3 : Basis K}
     (n : ℕ) {tol : K} (htol : 0 < tol)
     {us vs ws : List K} (hus : ∀ u ∈ us, b1.Admissible tol u) (hvs : ∀ v ∈ vs, b2.Admissible tol v) (hws : ∀ w ∈ ws, b3.Admissible tol w)
     (hex : ∀ u ∈ us, ∀ x ∈ refineValues ((b1.knotSpans tol false).toList) n,
-      x = u ∨ tol ≤ |x - u|) :
+      x = u ∨ tol ≤ |x - u|)
+    (hneA1 : b1.periodic < 0 → us ≠ [] := by (first | assumption | (simp; done) | skip))
+    (hneA2 : b2.periodic < 0 → vs ≠ [] := by (first | assumption | (simp; done) | skip))
+    (hneA3 : b3.periodic < 0 → ws ≠ [] := by (first | assumption | (simp; done) | skip)) :
     ∃ o' res, o.refineDir tol n 0 = .ok o' ∧ o.evaluate tol [us, vs, ws] true = .ok res ∧
       res.shape = [us.length, vs.length, ws.length, o.dimension] ∧
       o'.evaluate tol [us, vs, ws] true = .ok res ∧
@@ -377,7 +472,10 @@ theorem Bridge_C04_refine_volume_v {o : Obj K} {b1 b2 b3 : Basis K}
     (n : ℕ) {tol : K} (htol : 0 < tol)
     {us vs ws : List K} (hus : ∀ u ∈ us, b1.Admissible tol u) (hvs : ∀ v ∈ vs, b2.Admissible tol v) (hws : ∀ w ∈ ws, b3.Admissible tol w)
     (hex : ∀ u ∈ vs, ∀ x ∈ refineValues ((b2.knotSpans tol false).toList) n,
-      x = u ∨ tol ≤ |x - u|) :
+      x = u ∨ tol ≤ |x - u|)
+    (hneA1 : b1.periodic < 0 → us ≠ [] := by (first | assumption | (simp; done) | skip))
+    (hneA2 : b2.periodic < 0 → vs ≠ [] := by (first | assumption | (simp; done) | skip))
+    (hneA3 : b3.periodic < 0 → ws ≠ [] := by (first | assumption | (simp; done) | skip)) :
     ∃ o' res, o.refineDir tol n 1 = .ok o' ∧ o.evaluate tol [us, vs, ws] true = .ok res ∧
       res.shape = [us.length, vs.length, ws.length, o.dimension] ∧
       o'.evaluate tol [us, vs, ws] true = .ok res ∧
@@ -404,7 +502,10 @@ theorem Bridge_C04_refine_volume_w {o : Obj K} {b1 b2 b3 : Basis K}
     (n : ℕ) {tol : K} (htol : 0 < tol)
     {us vs ws : List K} (hus : ∀ u ∈ us, b1.Admissible tol u) (hvs : ∀ v ∈ vs, b2.Admissible tol v) (hws : ∀ w ∈ ws, b3.Admissible tol w)
     (hex : ∀ u ∈ ws, ∀ x ∈ refineValues ((b3.knotSpans tol false).toList) n,
-      x = u ∨ tol ≤ |x - u|) :
+      x = u ∨ tol ≤ |x - u|)
+    (hneA1 : b1.periodic < 0 → us ≠ [] := by (first | assumption | (simp; done) | skip))
+    (hneA2 : b2.periodic < 0 → vs ≠ [] := by (first | assumption | (simp; done) | skip))
+    (hneA3 : b3.periodic < 0 → ws ≠ [] := by (first | assumption | (simp; done) | skip)) :
     ∃ o' res, o.refineDir tol n 2 = .ok o' ∧ o.evaluate tol [us, vs, ws] true = .ok res ∧
       res.shape = [us.length, vs.length, ws.length, o.dimension] ∧
       o'.evaluate tol [us, vs, ws] true = .ok res ∧
@@ -434,7 +535,8 @@ theorem Bridge_C06_reverse_curve {o : Obj K} {b1 : Basis K}
     (hnc : o.rational = true → 1 ≤ nc)
     {tol : K} (htol : 0 < tol) {us : List K} (hus : ∀ u ∈ us, b1.Admissible tol u)
     (hok : ∀ u ∈ us, u = b1.start ∨ u = b1.stop ∨
-      ∀ j, b1.kn j = u → b1.kn (j + (b1.order - 1)) ≠ u) :
+      ∀ j, b1.kn j = u → b1.kn (j + (b1.order - 1)) ≠ u)
+    (hneA1 : b1.periodic < 0 → us ≠ [] := by (first | assumption | (simp; done) | skip)) :
     ∃ res, o.evaluate tol [us] true = .ok res ∧
       res.shape = [us.length, o.dimension] ∧
       (o.reverse 0).evaluate tol [(us.map (fun u => b1.start + b1.stop - u))] true
@@ -453,6 +555,18 @@ theorem Bridge_C06_reverse_curve {o : Obj K} {b1 : Basis K}
   have hadm' : ∀ u ∈ (us.map (fun u => b1.start + b1.stop - u)), b1.reverse.Admissible tol u := fun u hu => by
     obtain ⟨u0, hu0, rfl⟩ := List.mem_map.mp hu
     exact admissible_reverse hv1 hper (hus u0 hu0)
+  have hneB1 : b1.reverse.periodic < 0 → List.map (fun u => b1.start + b1.stop - u) us ≠ [] := by
+    intro h
+    first
+      | exact hneA1 h | exact hneA2 h | exact hneA3 h | exact hneA4 h
+      | exact hneA5 h | exact hneA6 h | exact hneA7 h | simpa using hneA1 h
+      | simpa using hneA2 h | simpa using hneA3 h | simpa using hneA4 h | simpa using hneA5 h
+      | simpa using hneA6 h | simpa using hneA7 h | exact hneA1 (by omega) | exact hneA2 (by omega)
+      | exact hneA3 (by omega) | exact hneA4 (by omega) | exact hneA5 (by omega) | exact hneA6 (by omega)
+      | exact hneA7 (by omega) | simpa using hneA1 (by omega) | simpa using hneA2 (by omega) | simpa using hneA3 (by omega)
+      | simpa using hneA4 (by omega) | simpa using hneA5 (by omega) | simpa using hneA6 (by omega) | simpa using hneA7 (by omega)
+      | exact hneA1 (by simp_all) | exact hneA2 (by simp_all) | exact hneA3 (by simp_all) | exact hneA4 (by simp_all)
+      | exact hneA5 (by simp_all) | exact hneA6 (by simp_all) | exact hneA7 (by simp_all)
   obtain ⟨e, res, e1, e2⟩ := transfer_curve (us' := (us.map (fun u => b1.start + b1.stop - u))) hb hb'' hv1 (C06.reverse_valid hv1) hs hs' hrat hnc htol
     (by simp)
     hus
@@ -475,7 +589,9 @@ theorem Bridge_C06_reverse_surface_u {o : Obj K} {b1 b2 : Basis K}
     (hnc : o.rational = true → 1 ≤ nc)
     {tol : K} (htol : 0 < tol) {us vs : List K} (hus : ∀ u ∈ us, b1.Admissible tol u) (hvs : ∀ v ∈ vs, b2.Admissible tol v)
     (hok : ∀ u ∈ us, u = b1.start ∨ u = b1.stop ∨
-      ∀ j, b1.kn j = u → b1.kn (j + (b1.order - 1)) ≠ u) :
+      ∀ j, b1.kn j = u → b1.kn (j + (b1.order - 1)) ≠ u)
+    (hneA1 : b1.periodic < 0 → us ≠ [] := by (first | assumption | (simp; done) | skip))
+    (hneA2 : b2.periodic < 0 → vs ≠ [] := by (first | assumption | (simp; done) | skip)) :
     ∃ res, o.evaluate tol [us, vs] true = .ok res ∧
       res.shape = [us.length, vs.length, o.dimension] ∧
       (o.reverse 0).evaluate tol [(us.map (fun u => b1.start + b1.stop - u)), vs] true
@@ -494,6 +610,18 @@ theorem Bridge_C06_reverse_surface_u {o : Obj K} {b1 b2 : Basis K}
   have hadm' : ∀ u ∈ (us.map (fun u => b1.start + b1.stop - u)), b1.reverse.Admissible tol u := fun u hu => by
     obtain ⟨u0, hu0, rfl⟩ := List.mem_map.mp hu
     exact admissible_reverse hv1 hper (hus u0 hu0)
+  have hneB1 : b1.reverse.periodic < 0 → List.map (fun u => b1.start + b1.stop - u) us ≠ [] := by
+    intro h
+    first
+      | exact hneA1 h | exact hneA2 h | exact hneA3 h | exact hneA4 h
+      | exact hneA5 h | exact hneA6 h | exact hneA7 h | simpa using hneA1 h
+      | simpa using hneA2 h | simpa using hneA3 h | simpa using hneA4 h | simpa using hneA5 h
+      | simpa using hneA6 h | simpa using hneA7 h | exact hneA1 (by omega) | exact hneA2 (by omega)
+      | exact hneA3 (by omega) | exact hneA4 (by omega) | exact hneA5 (by omega) | exact hneA6 (by omega)
+      | exact hneA7 (by omega) | simpa using hneA1 (by omega) | simpa using hneA2 (by omega) | simpa using hneA3 (by omega)
+      | simpa using hneA4 (by omega) | simpa using hneA5 (by omega) | simpa using hneA6 (by omega) | simpa using hneA7 (by omega)
+      | exact hneA1 (by simp_all) | exact hneA2 (by simp_all) | exact hneA3 (by simp_all) | exact hneA4 (by simp_all)
+      | exact hneA5 (by simp_all) | exact hneA6 (by simp_all) | exact hneA7 (by simp_all)
   obtain ⟨e, res, e1, e2⟩ := transfer_surface_u (us' := (us.map (fun u => b1.start + b1.stop - u))) hb hb'' hv1 (C06.reverse_valid hv1) hv2 hs hs' hrat hnc htol
     (by simp)
     hus
@@ -517,7 +645,9 @@ theorem Bridge_C06_reverse_surface_v {o : Obj K} {b1 b2 : Basis K}
     (hnc : o.rational = true → 1 ≤ nc)
     {tol : K} (htol : 0 < tol) {us vs : List K} (hus : ∀ u ∈ us, b1.Admissible tol u) (hvs : ∀ v ∈ vs, b2.Admissible tol v)
     (hok : ∀ u ∈ vs, u = b2.start ∨ u = b2.stop ∨
-      ∀ j, b2.kn j = u → b2.kn (j + (b2.order - 1)) ≠ u) :
+      ∀ j, b2.kn j = u → b2.kn (j + (b2.order - 1)) ≠ u)
+    (hneA1 : b1.periodic < 0 → us ≠ [] := by (first | assumption | (simp; done) | skip))
+    (hneA2 : b2.periodic < 0 → vs ≠ [] := by (first | assumption | (simp; done) | skip)) :
     ∃ res, o.evaluate tol [us, vs] true = .ok res ∧
       res.shape = [us.length, vs.length, o.dimension] ∧
       (o.reverse 1).evaluate tol [us, (vs.map (fun u => b2.start + b2.stop - u))] true
@@ -536,6 +666,18 @@ theorem Bridge_C06_reverse_surface_v {o : Obj K} {b1 b2 : Basis K}
   have hadm' : ∀ u ∈ (vs.map (fun u => b2.start + b2.stop - u)), b2.reverse.Admissible tol u := fun u hu => by
     obtain ⟨u0, hu0, rfl⟩ := List.mem_map.mp hu
     exact admissible_reverse hv2 hper (hvs u0 hu0)
+  have hneB1 : b2.reverse.periodic < 0 → List.map (fun u => b2.start + b2.stop - u) vs ≠ [] := by
+    intro h
+    first
+      | exact hneA1 h | exact hneA2 h | exact hneA3 h | exact hneA4 h
+      | exact hneA5 h | exact hneA6 h | exact hneA7 h | simpa using hneA1 h
+      | simpa using hneA2 h | simpa using hneA3 h | simpa using hneA4 h | simpa using hneA5 h
+      | simpa using hneA6 h | simpa using hneA7 h | exact hneA1 (by omega) | exact hneA2 (by omega)
+      | exact hneA3 (by omega) | exact hneA4 (by omega) | exact hneA5 (by omega) | exact hneA6 (by omega)
+      | exact hneA7 (by omega) | simpa using hneA1 (by omega) | simpa using hneA2 (by omega) | simpa using hneA3 (by omega)
+      | simpa using hneA4 (by omega) | simpa using hneA5 (by omega) | simpa using hneA6 (by omega) | simpa using hneA7 (by omega)
+      | exact hneA1 (by simp_all) | exact hneA2 (by simp_all) | exact hneA3 (by simp_all) | exact hneA4 (by simp_all)
+      | exact hneA5 (by simp_all) | exact hneA6 (by simp_all) | exact hneA7 (by simp_all)
   obtain ⟨e, res, e1, e2⟩ := transfer_surface_v (vs' := (vs.map (fun u => b2.start + b2.stop - u))) hb hb'' hv1 hv2 (C06.reverse_valid hv2) hs hs' hrat hnc htol
     (by simp)
     hus
@@ -559,7 +701,10 @@ theorem Bridge_C06_reverse_volume_u {o : Obj K} {b1 b2 b3 : Basis K}
     (hnc : o.rational = true → 1 ≤ nc)
     {tol : K} (htol : 0 < tol) {us vs ws : List K} (hus : ∀ u ∈ us, b1.Admissible tol u) (hvs : ∀ v ∈ vs, b2.Admissible tol v) (hws : ∀ w ∈ ws, b3.Admissible tol w)
     (hok : ∀ u ∈ us, u = b1.start ∨ u = b1.stop ∨
-      ∀ j, b1.kn j = u → b1.kn (j + (b1.order - 1)) ≠ u) :
+      ∀ j, b1.kn j = u → b1.kn (j + (b1.order - 1)) ≠ u)
+    (hneA1 : b1.periodic < 0 → us ≠ [] := by (first | assumption | (simp; done) | skip))
+    (hneA2 : b2.periodic < 0 → vs ≠ [] := by (first | assumption | (simp; done) | skip))
+    (hneA3 : b3.periodic < 0 → ws ≠ [] := by (first | assumption | (simp; done) | skip)) :
     ∃ res, o.evaluate tol [us, vs, ws] true = .ok res ∧
       res.shape = [us.length, vs.length, ws.length, o.dimension] ∧
       (o.reverse 0).evaluate tol [(us.map (fun u => b1.start + b1.stop - u)), vs, ws] true
@@ -578,6 +723,18 @@ theorem Bridge_C06_reverse_volume_u {o : Obj K} {b1 b2 b3 : Basis K}
   have hadm' : ∀ u ∈ (us.map (fun u => b1.start + b1.stop - u)), b1.reverse.Admissible tol u := fun u hu => by
     obtain ⟨u0, hu0, rfl⟩ := List.mem_map.mp hu
     exact admissible_reverse hv1 hper (hus u0 hu0)
+  have hneB1 : b1.reverse.periodic < 0 → List.map (fun u => b1.start + b1.stop - u) us ≠ [] := by
+    intro h
+    first
+      | exact hneA1 h | exact hneA2 h | exact hneA3 h | exact hneA4 h
+      | exact hneA5 h | exact hneA6 h | exact hneA7 h | simpa using hneA1 h
+      | simpa using hneA2 h | simpa using hneA3 h | simpa using hneA4 h | simpa using hneA5 h
+      | simpa using hneA6 h | simpa using hneA7 h | exact hneA1 (by omega) | exact hneA2 (by omega)
+      | exact hneA3 (by omega) | exact hneA4 (by omega) | exact hneA5 (by omega) | exact hneA6 (by omega)
+      | exact hneA7 (by omega) | simpa using hneA1 (by omega) | simpa using hneA2 (by omega) | simpa using hneA3 (by omega)
+      | simpa using hneA4 (by omega) | simpa using hneA5 (by omega) | simpa using hneA6 (by omega) | simpa using hneA7 (by omega)
+      | exact hneA1 (by simp_all) | exact hneA2 (by simp_all) | exact hneA3 (by simp_all) | exact hneA4 (by simp_all)
+      | exact hneA5 (by simp_all) | exact hneA6 (by simp_all) | exact hneA7 (by simp_all)
   obtain ⟨e, res, e1, e2⟩ := transfer_volume_u (us' := (us.map (fun u => b1.start + b1.stop - u))) hb hb'' hv1 (C06.reverse_valid hv1) hv2 hv3 hs hs' hrat hnc htol
     (by simp)
     hus
@@ -602,7 +759,10 @@ theorem Bridge_C06_reverse_volume_v {o : Obj K} {b1 b2 b3 : Basis K}
     (hnc : o.rational = true → 1 ≤ nc)
     {tol : K} (htol : 0 < tol) {us vs ws : List K} (hus : ∀ u ∈ us, b1.Admissible tol u) (hvs : ∀ v ∈ vs, b2.Admissible tol v) (hws : ∀ w ∈ ws, b3.Admissible tol w)
     (hok : ∀ u ∈ vs, u = b2.start ∨ u = b2.stop ∨
-      ∀ j, b2.kn j = u → b2.kn (j + (b2.order - 1)) ≠ u) :
+      ∀ j, b2.kn j = u → b2.kn (j + (b2.order - 1)) ≠ u)
+    (hneA1 : b1.periodic < 0 → us ≠ [] := by (first | assumption | (simp; done) | skip))
+    (hneA2 : b2.periodic < 0 → vs ≠ [] := by (first | assumption | (simp; done) | skip))
+    (hneA3 : b3.periodic < 0 → ws ≠ [] := by (first | assumption | (simp; done) | skip)) :
     ∃ res, o.evaluate tol [us, vs, ws] true = .ok res ∧
       res.shape = [us.length, vs.length, ws.length, o.dimension] ∧
       (o.reverse 1).evaluate tol [us, (vs.map (fun u => b2.start + b2.stop - u)), ws] true
@@ -621,6 +781,18 @@ theorem Bridge_C06_reverse_volume_v {o : Obj K} {b1 b2 b3 : Basis K}
   have hadm' : ∀ u ∈ (vs.map (fun u => b2.start + b2.stop - u)), b2.reverse.Admissible tol u := fun u hu => by
     obtain ⟨u0, hu0, rfl⟩ := List.mem_map.mp hu
     exact admissible_reverse hv2 hper (hvs u0 hu0)
+  have hneB1 : b2.reverse.periodic < 0 → List.map (fun u => b2.start + b2.stop - u) vs ≠ [] := by
+    intro h
+    first
+      | exact hneA1 h | exact hneA2 h | exact hneA3 h | exact hneA4 h
+      | exact hneA5 h | exact hneA6 h | exact hneA7 h | simpa using hneA1 h
+      | simpa using hneA2 h | simpa using hneA3 h | simpa using hneA4 h | simpa using hneA5 h
+      | simpa using hneA6 h | simpa using hneA7 h | exact hneA1 (by omega) | exact hneA2 (by omega)
+      | exact hneA3 (by omega) | exact hneA4 (by omega) | exact hneA5 (by omega) | exact hneA6 (by omega)
+      | exact hneA7 (by omega) | simpa using hneA1 (by omega) | simpa using hneA2 (by omega) | simpa using hneA3 (by omega)
+      | simpa using hneA4 (by omega) | simpa using hneA5 (by omega) | simpa using hneA6 (by omega) | simpa using hneA7 (by omega)
+      | exact hneA1 (by simp_all) | exact hneA2 (by simp_all) | exact hneA3 (by simp_all) | exact hneA4 (by simp_all)
+      | exact hneA5 (by simp_all) | exact hneA6 (by simp_all) | exact hneA7 (by simp_all)
   obtain ⟨e, res, e1, e2⟩ := transfer_volume_v (vs' := (vs.map (fun u => b2.start + b2.stop - u))) hb hb'' hv1 hv2 (C06.reverse_valid hv2) hv3 hs hs' hrat hnc htol
     (by simp)
     hus
@@ -645,7 +817,10 @@ theorem Bridge_C06_reverse_volume_w {o : Obj K} {b1 b2 b3 : Basis K}
     (hnc : o.rational = true → 1 ≤ nc)
     {tol : K} (htol : 0 < tol) {us vs ws : List K} (hus : ∀ u ∈ us, b1.Admissible tol u) (hvs : ∀ v ∈ vs, b2.Admissible tol v) (hws : ∀ w ∈ ws, b3.Admissible tol w)
     (hok : ∀ u ∈ ws, u = b3.start ∨ u = b3.stop ∨
-      ∀ j, b3.kn j = u → b3.kn (j + (b3.order - 1)) ≠ u) :
+      ∀ j, b3.kn j = u → b3.kn (j + (b3.order - 1)) ≠ u)
+    (hneA1 : b1.periodic < 0 → us ≠ [] := by (first | assumption | (simp; done) | skip))
+    (hneA2 : b2.periodic < 0 → vs ≠ [] := by (first | assumption | (simp; done) | skip))
+    (hneA3 : b3.periodic < 0 → ws ≠ [] := by (first | assumption | (simp; done) | skip)) :
     ∃ res, o.evaluate tol [us, vs, ws] true = .ok res ∧
       res.shape = [us.length, vs.length, ws.length, o.dimension] ∧
       (o.reverse 2).evaluate tol [us, vs, (ws.map (fun u => b3.start + b3.stop - u))] true
@@ -664,6 +839,18 @@ theorem Bridge_C06_reverse_volume_w {o : Obj K} {b1 b2 b3 : Basis K}
   have hadm' : ∀ u ∈ (ws.map (fun u => b3.start + b3.stop - u)), b3.reverse.Admissible tol u := fun u hu => by
     obtain ⟨u0, hu0, rfl⟩ := List.mem_map.mp hu
     exact admissible_reverse hv3 hper (hws u0 hu0)
+  have hneB1 : b3.reverse.periodic < 0 → List.map (fun u => b3.start + b3.stop - u) ws ≠ [] := by
+    intro h
+    first
+      | exact hneA1 h | exact hneA2 h | exact hneA3 h | exact hneA4 h
+      | exact hneA5 h | exact hneA6 h | exact hneA7 h | simpa using hneA1 h
+      | simpa using hneA2 h | simpa using hneA3 h | simpa using hneA4 h | simpa using hneA5 h
+      | simpa using hneA6 h | simpa using hneA7 h | exact hneA1 (by omega) | exact hneA2 (by omega)
+      | exact hneA3 (by omega) | exact hneA4 (by omega) | exact hneA5 (by omega) | exact hneA6 (by omega)
+      | exact hneA7 (by omega) | simpa using hneA1 (by omega) | simpa using hneA2 (by omega) | simpa using hneA3 (by omega)
+      | simpa using hneA4 (by omega) | simpa using hneA5 (by omega) | simpa using hneA6 (by omega) | simpa using hneA7 (by omega)
+      | exact hneA1 (by simp_all) | exact hneA2 (by simp_all) | exact hneA3 (by simp_all) | exact hneA4 (by simp_all)
+      | exact hneA5 (by simp_all) | exact hneA6 (by simp_all) | exact hneA7 (by simp_all)
   obtain ⟨e, res, e1, e2⟩ := transfer_volume_w (ws' := (ws.map (fun u => b3.start + b3.stop - u))) hb hb'' hv1 hv2 hv3 (C06.reverse_valid hv3) hs hs' hrat hnc htol
     (by simp)
     hus
@@ -690,7 +877,8 @@ theorem Bridge_C06_reparam_curve {o : Obj K} {b1 : Basis K}
     {s e : K} {b1' : Basis K} (hrep : b1.reparam s e = .ok b1')
     {tol : K} (htol : 0 < tol) {us : List K} (hus : ∀ u ∈ us, b1.Admissible tol u)
     (hus' : ∀ u ∈ us,
-      b1'.Admissible tol (s + (u - b1.start) * (e - s) / (b1.stop - b1.start))) :
+      b1'.Admissible tol (s + (u - b1.start) * (e - s) / (b1.stop - b1.start)))
+    (hneA1 : b1.periodic < 0 → us ≠ [] := by (first | assumption | (simp; done) | skip)) :
     ∃ o' res, o.reparamDir 0 s e = .ok o' ∧ o.evaluate tol [us] true = .ok res ∧
       res.shape = [us.length, o.dimension] ∧
       o'.evaluate tol [(us.map (fun u => s + (u - b1.start) * (e - s) / (b1.stop - b1.start)))] true
@@ -720,6 +908,18 @@ theorem Bridge_C06_reparam_curve {o : Obj K} {b1 : Basis K}
   have hadm' : ∀ u ∈ (us.map (fun u => s + (u - b1.start) * (e - s) / (b1.stop - b1.start))), (C06.reparamOk b1 s e).Admissible tol u := fun u hu => by
     obtain ⟨u0, hu0, rfl⟩ := List.mem_map.mp hu
     exact hus' u0 hu0
+  have hneB1 : (C06.reparamOk b1 s e).periodic < 0 → List.map (fun u => s + (u - b1.start) * (e - s) / (b1.stop - b1.start)) us ≠ [] := by
+    intro h
+    first
+      | exact hneA1 h | exact hneA2 h | exact hneA3 h | exact hneA4 h
+      | exact hneA5 h | exact hneA6 h | exact hneA7 h | simpa using hneA1 h
+      | simpa using hneA2 h | simpa using hneA3 h | simpa using hneA4 h | simpa using hneA5 h
+      | simpa using hneA6 h | simpa using hneA7 h | exact hneA1 (by omega) | exact hneA2 (by omega)
+      | exact hneA3 (by omega) | exact hneA4 (by omega) | exact hneA5 (by omega) | exact hneA6 (by omega)
+      | exact hneA7 (by omega) | simpa using hneA1 (by omega) | simpa using hneA2 (by omega) | simpa using hneA3 (by omega)
+      | simpa using hneA4 (by omega) | simpa using hneA5 (by omega) | simpa using hneA6 (by omega) | simpa using hneA7 (by omega)
+      | exact hneA1 (by simp_all) | exact hneA2 (by simp_all) | exact hneA3 (by simp_all) | exact hneA4 (by simp_all)
+      | exact hneA5 (by simp_all) | exact hneA6 (by simp_all) | exact hneA7 (by simp_all)
   obtain ⟨e, res, e1, e2⟩ := transfer_curve (us' := (us.map (fun u => s + (u - b1.start) * (e - s) / (b1.stop - b1.start)))) hb hb'' hv1 hv' hs hs' hrat hnc htol
     (by simp)
     hus
@@ -742,7 +942,9 @@ theorem Bridge_C06_reparam_surface_u {o : Obj K} {b1 b2 : Basis K}
     {s e : K} {b1' : Basis K} (hrep : b1.reparam s e = .ok b1')
     {tol : K} (htol : 0 < tol) {us vs : List K} (hus : ∀ u ∈ us, b1.Admissible tol u) (hvs : ∀ v ∈ vs, b2.Admissible tol v)
     (hus' : ∀ u ∈ us,
-      b1'.Admissible tol (s + (u - b1.start) * (e - s) / (b1.stop - b1.start))) :
+      b1'.Admissible tol (s + (u - b1.start) * (e - s) / (b1.stop - b1.start)))
+    (hneA1 : b1.periodic < 0 → us ≠ [] := by (first | assumption | (simp; done) | skip))
+    (hneA2 : b2.periodic < 0 → vs ≠ [] := by (first | assumption | (simp; done) | skip)) :
     ∃ o' res, o.reparamDir 0 s e = .ok o' ∧ o.evaluate tol [us, vs] true = .ok res ∧
       res.shape = [us.length, vs.length, o.dimension] ∧
       o'.evaluate tol [(us.map (fun u => s + (u - b1.start) * (e - s) / (b1.stop - b1.start))), vs] true
@@ -772,6 +974,18 @@ theorem Bridge_C06_reparam_surface_u {o : Obj K} {b1 b2 : Basis K}
   have hadm' : ∀ u ∈ (us.map (fun u => s + (u - b1.start) * (e - s) / (b1.stop - b1.start))), (C06.reparamOk b1 s e).Admissible tol u := fun u hu => by
     obtain ⟨u0, hu0, rfl⟩ := List.mem_map.mp hu
     exact hus' u0 hu0
+  have hneB1 : (C06.reparamOk b1 s e).periodic < 0 → List.map (fun u => s + (u - b1.start) * (e - s) / (b1.stop - b1.start)) us ≠ [] := by
+    intro h
+    first
+      | exact hneA1 h | exact hneA2 h | exact hneA3 h | exact hneA4 h
+      | exact hneA5 h | exact hneA6 h | exact hneA7 h | simpa using hneA1 h
+      | simpa using hneA2 h | simpa using hneA3 h | simpa using hneA4 h | simpa using hneA5 h
+      | simpa using hneA6 h | simpa using hneA7 h | exact hneA1 (by omega) | exact hneA2 (by omega)
+      | exact hneA3 (by omega) | exact hneA4 (by omega) | exact hneA5 (by omega) | exact hneA6 (by omega)
+      | exact hneA7 (by omega) | simpa using hneA1 (by omega) | simpa using hneA2 (by omega) | simpa using hneA3 (by omega)
+      | simpa using hneA4 (by omega) | simpa using hneA5 (by omega) | simpa using hneA6 (by omega) | simpa using hneA7 (by omega)
+      | exact hneA1 (by simp_all) | exact hneA2 (by simp_all) | exact hneA3 (by simp_all) | exact hneA4 (by simp_all)
+      | exact hneA5 (by simp_all) | exact hneA6 (by simp_all) | exact hneA7 (by simp_all)
   obtain ⟨e, res, e1, e2⟩ := transfer_surface_u (us' := (us.map (fun u => s + (u - b1.start) * (e - s) / (b1.stop - b1.start)))) hb hb'' hv1 hv' hv2 hs hs' hrat hnc htol
     (by simp)
     hus
@@ -795,7 +1009,9 @@ theorem Bridge_C06_reparam_surface_v {o : Obj K} {b1 b2 : Basis K}
     {s e : K} {b2' : Basis K} (hrep : b2.reparam s e = .ok b2')
     {tol : K} (htol : 0 < tol) {us vs : List K} (hus : ∀ u ∈ us, b1.Admissible tol u) (hvs : ∀ v ∈ vs, b2.Admissible tol v)
     (hvs' : ∀ u ∈ vs,
-      b2'.Admissible tol (s + (u - b2.start) * (e - s) / (b2.stop - b2.start))) :
+      b2'.Admissible tol (s + (u - b2.start) * (e - s) / (b2.stop - b2.start)))
+    (hneA1 : b1.periodic < 0 → us ≠ [] := by (first | assumption | (simp; done) | skip))
+    (hneA2 : b2.periodic < 0 → vs ≠ [] := by (first | assumption | (simp; done) | skip)) :
     ∃ o' res, o.reparamDir 1 s e = .ok o' ∧ o.evaluate tol [us, vs] true = .ok res ∧
       res.shape = [us.length, vs.length, o.dimension] ∧
       o'.evaluate tol [us, (vs.map (fun u => s + (u - b2.start) * (e - s) / (b2.stop - b2.start)))] true
@@ -825,6 +1041,18 @@ theorem Bridge_C06_reparam_surface_v {o : Obj K} {b1 b2 : Basis K}
   have hadm' : ∀ u ∈ (vs.map (fun u => s + (u - b2.start) * (e - s) / (b2.stop - b2.start))), (C06.reparamOk b2 s e).Admissible tol u := fun u hu => by
     obtain ⟨u0, hu0, rfl⟩ := List.mem_map.mp hu
     exact hvs' u0 hu0
+  have hneB1 : (C06.reparamOk b2 s e).periodic < 0 → List.map (fun u => s + (u - b2.start) * (e - s) / (b2.stop - b2.start)) vs ≠ [] := by
+    intro h
+    first
+      | exact hneA1 h | exact hneA2 h | exact hneA3 h | exact hneA4 h
+      | exact hneA5 h | exact hneA6 h | exact hneA7 h | simpa using hneA1 h
+      | simpa using hneA2 h | simpa using hneA3 h | simpa using hneA4 h | simpa using hneA5 h
+      | simpa using hneA6 h | simpa using hneA7 h | exact hneA1 (by omega) | exact hneA2 (by omega)
+      | exact hneA3 (by omega) | exact hneA4 (by omega) | exact hneA5 (by omega) | exact hneA6 (by omega)
+      | exact hneA7 (by omega) | simpa using hneA1 (by omega) | simpa using hneA2 (by omega) | simpa using hneA3 (by omega)
+      | simpa using hneA4 (by omega) | simpa using hneA5 (by omega) | simpa using hneA6 (by omega) | simpa using hneA7 (by omega)
+      | exact hneA1 (by simp_all) | exact hneA2 (by simp_all) | exact hneA3 (by simp_all) | exact hneA4 (by simp_all)
+      | exact hneA5 (by simp_all) | exact hneA6 (by simp_all) | exact hneA7 (by simp_all)
   obtain ⟨e, res, e1, e2⟩ := transfer_surface_v (vs' := (vs.map (fun u => s + (u - b2.start) * (e - s) / (b2.stop - b2.start)))) hb hb'' hv1 hv2 hv' hs hs' hrat hnc htol
     (by simp)
     hus
@@ -848,7 +1076,10 @@ theorem Bridge_C06_reparam_volume_u {o : Obj K} {b1 b2 b3 : Basis K}
     {s e : K} {b1' : Basis K} (hrep : b1.reparam s e = .ok b1')
     {tol : K} (htol : 0 < tol) {us vs ws : List K} (hus : ∀ u ∈ us, b1.Admissible tol u) (hvs : ∀ v ∈ vs, b2.Admissible tol v) (hws : ∀ w ∈ ws, b3.Admissible tol w)
     (hus' : ∀ u ∈ us,
-      b1'.Admissible tol (s + (u - b1.start) * (e - s) / (b1.stop - b1.start))) :
+      b1'.Admissible tol (s + (u - b1.start) * (e - s) / (b1.stop - b1.start)))
+    (hneA1 : b1.periodic < 0 → us ≠ [] := by (first | assumption | (simp; done) | skip))
+    (hneA2 : b2.periodic < 0 → vs ≠ [] := by (first | assumption | (simp; done) | skip))
+    (hneA3 : b3.periodic < 0 → ws ≠ [] := by (first | assumption | (simp; done) | skip)) :
     ∃ o' res, o.reparamDir 0 s e = .ok o' ∧ o.evaluate tol [us, vs, ws] true = .ok res ∧
       res.shape = [us.length, vs.length, ws.length, o.dimension] ∧
       o'.evaluate tol [(us.map (fun u => s + (u - b1.start) * (e - s) / (b1.stop - b1.start))), vs, ws] true
@@ -878,6 +1109,18 @@ theorem Bridge_C06_reparam_volume_u {o : Obj K} {b1 b2 b3 : Basis K}
   have hadm' : ∀ u ∈ (us.map (fun u => s + (u - b1.start) * (e - s) / (b1.stop - b1.start))), (C06.reparamOk b1 s e).Admissible tol u := fun u hu => by
     obtain ⟨u0, hu0, rfl⟩ := List.mem_map.mp hu
     exact hus' u0 hu0
+  have hneB1 : (C06.reparamOk b1 s e).periodic < 0 → List.map (fun u => s + (u - b1.start) * (e - s) / (b1.stop - b1.start)) us ≠ [] := by
+    intro h
+    first
+      | exact hneA1 h | exact hneA2 h | exact hneA3 h | exact hneA4 h
+      | exact hneA5 h | exact hneA6 h | exact hneA7 h | simpa using hneA1 h
+      | simpa using hneA2 h | simpa using hneA3 h | simpa using hneA4 h | simpa using hneA5 h
+      | simpa using hneA6 h | simpa using hneA7 h | exact hneA1 (by omega) | exact hneA2 (by omega)
+      | exact hneA3 (by omega) | exact hneA4 (by omega) | exact hneA5 (by omega) | exact hneA6 (by omega)
+      | exact hneA7 (by omega) | simpa using hneA1 (by omega) | simpa using hneA2 (by omega) | simpa using hneA3 (by omega)
+      | simpa using hneA4 (by omega) | simpa using hneA5 (by omega) | simpa using hneA6 (by omega) | simpa using hneA7 (by omega)
+      | exact hneA1 (by simp_all) | exact hneA2 (by simp_all) | exact hneA3 (by simp_all) | exact hneA4 (by simp_all)
+      | exact hneA5 (by simp_all) | exact hneA6 (by simp_all) | exact hneA7 (by simp_all)
   obtain ⟨e, res, e1, e2⟩ := transfer_volume_u (us' := (us.map (fun u => s + (u - b1.start) * (e - s) / (b1.stop - b1.start)))) hb hb'' hv1 hv' hv2 hv3 hs hs' hrat hnc htol
     (by simp)
     hus
@@ -902,7 +1145,10 @@ theorem Bridge_C06_reparam_volume_v {o : Obj K} {b1 b2 b3 : Basis K}
     {s e : K} {b2' : Basis K} (hrep : b2.reparam s e = .ok b2')
     {tol : K} (htol : 0 < tol) {us vs ws : List K} (hus : ∀ u ∈ us, b1.Admissible tol u) (hvs : ∀ v ∈ vs, b2.Admissible tol v) (hws : ∀ w ∈ ws, b3.Admissible tol w)
     (hvs' : ∀ u ∈ vs,
-      b2'.Admissible tol (s + (u - b2.start) * (e - s) / (b2.stop - b2.start))) :
+      b2'.Admissible tol (s + (u - b2.start) * (e - s) / (b2.stop - b2.start)))
+    (hneA1 : b1.periodic < 0 → us ≠ [] := by (first | assumption | (simp; done) | skip))
+    (hneA2 : b2.periodic < 0 → vs ≠ [] := by (first | assumption | (simp; done) | skip))
+    (hneA3 : b3.periodic < 0 → ws ≠ [] := by (first | assumption | (simp; done) | skip)) :
     ∃ o' res, o.reparamDir 1 s e = .ok o' ∧ o.evaluate tol [us, vs, ws] true = .ok res ∧
       res.shape = [us.length, vs.length, ws.length, o.dimension] ∧
       o'.evaluate tol [us, (vs.map (fun u => s + (u - b2.start) * (e - s) / (b2.stop - b2.start))), ws] true
@@ -932,6 +1178,18 @@ theorem Bridge_C06_reparam_volume_v {o : Obj K} {b1 b2 b3 : Basis K}
   have hadm' : ∀ u ∈ (vs.map (fun u => s + (u - b2.start) * (e - s) / (b2.stop - b2.start))), (C06.reparamOk b2 s e).Admissible tol u := fun u hu => by
     obtain ⟨u0, hu0, rfl⟩ := List.mem_map.mp hu
     exact hvs' u0 hu0
+  have hneB1 : (C06.reparamOk b2 s e).periodic < 0 → List.map (fun u => s + (u - b2.start) * (e - s) / (b2.stop - b2.start)) vs ≠ [] := by
+    intro h
+    first
+      | exact hneA1 h | exact hneA2 h | exact hneA3 h | exact hneA4 h
+      | exact hneA5 h | exact hneA6 h | exact hneA7 h | simpa using hneA1 h
+      | simpa using hneA2 h | simpa using hneA3 h | simpa using hneA4 h | simpa using hneA5 h
+      | simpa using hneA6 h | simpa using hneA7 h | exact hneA1 (by omega) | exact hneA2 (by omega)
+      | exact hneA3 (by omega) | exact hneA4 (by omega) | exact hneA5 (by omega) | exact hneA6 (by omega)
+      | exact hneA7 (by omega) | simpa using hneA1 (by omega) | simpa using hneA2 (by omega) | simpa using hneA3 (by omega)
+      | simpa using hneA4 (by omega) | simpa using hneA5 (by omega) | simpa using hneA6 (by omega) | simpa using hneA7 (by omega)
+      | exact hneA1 (by simp_all) | exact hneA2 (by simp_all) | exact hneA3 (by simp_all) | exact hneA4 (by simp_all)
+      | exact hneA5 (by simp_all) | exact hneA6 (by simp_all) | exact hneA7 (by simp_all)
   obtain ⟨e, res, e1, e2⟩ := transfer_volume_v (vs' := (vs.map (fun u => s + (u - b2.start) * (e - s) / (b2.stop - b2.start)))) hb hb'' hv1 hv2 hv' hv3 hs hs' hrat hnc htol
     (by simp)
     hus
@@ -956,7 +1214,10 @@ theorem Bridge_C06_reparam_volume_w {o : Obj K} {b1 b2 b3 : Basis K}
     {s e : K} {b3' : Basis K} (hrep : b3.reparam s e = .ok b3')
     {tol : K} (htol : 0 < tol) {us vs ws : List K} (hus : ∀ u ∈ us, b1.Admissible tol u) (hvs : ∀ v ∈ vs, b2.Admissible tol v) (hws : ∀ w ∈ ws, b3.Admissible tol w)
     (hws' : ∀ u ∈ ws,
-      b3'.Admissible tol (s + (u - b3.start) * (e - s) / (b3.stop - b3.start))) :
+      b3'.Admissible tol (s + (u - b3.start) * (e - s) / (b3.stop - b3.start)))
+    (hneA1 : b1.periodic < 0 → us ≠ [] := by (first | assumption | (simp; done) | skip))
+    (hneA2 : b2.periodic < 0 → vs ≠ [] := by (first | assumption | (simp; done) | skip))
+    (hneA3 : b3.periodic < 0 → ws ≠ [] := by (first | assumption | (simp; done) | skip)) :
     ∃ o' res, o.reparamDir 2 s e = .ok o' ∧ o.evaluate tol [us, vs, ws] true = .ok res ∧
       res.shape = [us.length, vs.length, ws.length, o.dimension] ∧
       o'.evaluate tol [us, vs, (ws.map (fun u => s + (u - b3.start) * (e - s) / (b3.stop - b3.start)))] true
@@ -986,6 +1247,18 @@ theorem Bridge_C06_reparam_volume_w {o : Obj K} {b1 b2 b3 : Basis K}
   have hadm' : ∀ u ∈ (ws.map (fun u => s + (u - b3.start) * (e - s) / (b3.stop - b3.start))), (C06.reparamOk b3 s e).Admissible tol u := fun u hu => by
     obtain ⟨u0, hu0, rfl⟩ := List.mem_map.mp hu
     exact hws' u0 hu0
+  have hneB1 : (C06.reparamOk b3 s e).periodic < 0 → List.map (fun u => s + (u - b3.start) * (e - s) / (b3.stop - b3.start)) ws ≠ [] := by
+    intro h
+    first
+      | exact hneA1 h | exact hneA2 h | exact hneA3 h | exact hneA4 h
+      | exact hneA5 h | exact hneA6 h | exact hneA7 h | simpa using hneA1 h
+      | simpa using hneA2 h | simpa using hneA3 h | simpa using hneA4 h | simpa using hneA5 h
+      | simpa using hneA6 h | simpa using hneA7 h | exact hneA1 (by omega) | exact hneA2 (by omega)
+      | exact hneA3 (by omega) | exact hneA4 (by omega) | exact hneA5 (by omega) | exact hneA6 (by omega)
+      | exact hneA7 (by omega) | simpa using hneA1 (by omega) | simpa using hneA2 (by omega) | simpa using hneA3 (by omega)
+      | simpa using hneA4 (by omega) | simpa using hneA5 (by omega) | simpa using hneA6 (by omega) | simpa using hneA7 (by omega)
+      | exact hneA1 (by simp_all) | exact hneA2 (by simp_all) | exact hneA3 (by simp_all) | exact hneA4 (by simp_all)
+      | exact hneA5 (by simp_all) | exact hneA6 (by simp_all) | exact hneA7 (by simp_all)
   obtain ⟨e, res, e1, e2⟩ := transfer_volume_w (ws' := (ws.map (fun u => s + (u - b3.start) * (e - s) / (b3.stop - b3.start)))) hb hb'' hv1 hv2 hv3 hv' hs hs' hrat hnc htol
     (by simp)
     hus
@@ -1010,7 +1283,8 @@ theorem Bridge_C09_curve {o o' : Obj K} (op : AffOp K) (hadm : op.Admissible)
     {nc : ℕ} (hs : o.cps.shape = [b1.numFunctions, nc]) (hnc : 0 < nc)
     (hdata : o.cps.data.size = b1.numFunctions * nc)
     (hw : o.rational = true → ∀ k, k < b1.numFunctions → 0 < o.cps.get (k * nc + (nc - 1)))
-    {tol : K} (htol : 0 < tol) {us : List K} (hus : ∀ u ∈ us, b1.Admissible tol u) :
+    {tol : K} (htol : 0 < tol) {us : List K} (hus : ∀ u ∈ us, b1.Admissible tol u)
+    (hneA1 : b1.periodic < 0 → us ≠ [] := by (first | assumption | (simp; done) | skip)) :
     o'.dimension = op.newDim o.dimension ∧ o'.rational = op.newRational o.rational ∧
     ∃ res res', o.evaluate tol [us] true = .ok res ∧
       o'.evaluate tol [us] true = .ok res' ∧
@@ -1034,7 +1308,8 @@ theorem Bridge_C09_curve_run {o o' : Obj K} (ops : List (AffOp K))
     {nc : ℕ} (hs : o.cps.shape = [b1.numFunctions, nc]) (hnc : 0 < nc)
     (hdata : o.cps.data.size = b1.numFunctions * nc)
     (hw : o.rational = true → ∀ k, k < b1.numFunctions → 0 < o.cps.get (k * nc + (nc - 1)))
-    {tol : K} (htol : 0 < tol) {us : List K} (hus : ∀ u ∈ us, b1.Admissible tol u) :
+    {tol : K} (htol : 0 < tol) {us : List K} (hus : ∀ u ∈ us, b1.Admissible tol u)
+    (hneA1 : b1.periodic < 0 → us ≠ [] := by (first | assumption | (simp; done) | skip)) :
     o'.dimension = AffOp.newDimList o.dimension ops ∧
     ∃ res res', o.evaluate tol [us] true = .ok res ∧
       o'.evaluate tol [us] true = .ok res' ∧
@@ -1060,7 +1335,9 @@ theorem Bridge_C09_surface {o o' : Obj K} (op : AffOp K) (hadm : op.Admissible)
     {nc : ℕ} (hs : o.cps.shape = [b1.numFunctions, b2.numFunctions, nc]) (hnc : 0 < nc)
     (hdata : o.cps.data.size = b1.numFunctions * b2.numFunctions * nc)
     (hw : o.rational = true → ∀ k, k < b1.numFunctions * b2.numFunctions → 0 < o.cps.get (k * nc + (nc - 1)))
-    {tol : K} (htol : 0 < tol) {us vs : List K} (hus : ∀ u ∈ us, b1.Admissible tol u) (hvs : ∀ v ∈ vs, b2.Admissible tol v) :
+    {tol : K} (htol : 0 < tol) {us vs : List K} (hus : ∀ u ∈ us, b1.Admissible tol u) (hvs : ∀ v ∈ vs, b2.Admissible tol v)
+    (hneA1 : b1.periodic < 0 → us ≠ [] := by (first | assumption | (simp; done) | skip))
+    (hneA2 : b2.periodic < 0 → vs ≠ [] := by (first | assumption | (simp; done) | skip)) :
     o'.dimension = op.newDim o.dimension ∧ o'.rational = op.newRational o.rational ∧
     ∃ res res', o.evaluate tol [us, vs] true = .ok res ∧
       o'.evaluate tol [us, vs] true = .ok res' ∧
@@ -1084,7 +1361,9 @@ theorem Bridge_C09_surface_run {o o' : Obj K} (ops : List (AffOp K))
     {nc : ℕ} (hs : o.cps.shape = [b1.numFunctions, b2.numFunctions, nc]) (hnc : 0 < nc)
     (hdata : o.cps.data.size = b1.numFunctions * b2.numFunctions * nc)
     (hw : o.rational = true → ∀ k, k < b1.numFunctions * b2.numFunctions → 0 < o.cps.get (k * nc + (nc - 1)))
-    {tol : K} (htol : 0 < tol) {us vs : List K} (hus : ∀ u ∈ us, b1.Admissible tol u) (hvs : ∀ v ∈ vs, b2.Admissible tol v) :
+    {tol : K} (htol : 0 < tol) {us vs : List K} (hus : ∀ u ∈ us, b1.Admissible tol u) (hvs : ∀ v ∈ vs, b2.Admissible tol v)
+    (hneA1 : b1.periodic < 0 → us ≠ [] := by (first | assumption | (simp; done) | skip))
+    (hneA2 : b2.periodic < 0 → vs ≠ [] := by (first | assumption | (simp; done) | skip)) :
     o'.dimension = AffOp.newDimList o.dimension ops ∧
     ∃ res res', o.evaluate tol [us, vs] true = .ok res ∧
       o'.evaluate tol [us, vs] true = .ok res' ∧
@@ -1110,7 +1389,10 @@ theorem Bridge_C09_volume {o o' : Obj K} (op : AffOp K) (hadm : op.Admissible)
     {nc : ℕ} (hs : o.cps.shape = [b1.numFunctions, b2.numFunctions, b3.numFunctions, nc]) (hnc : 0 < nc)
     (hdata : o.cps.data.size = b1.numFunctions * b2.numFunctions * b3.numFunctions * nc)
     (hw : o.rational = true → ∀ k, k < b1.numFunctions * b2.numFunctions * b3.numFunctions → 0 < o.cps.get (k * nc + (nc - 1)))
-    {tol : K} (htol : 0 < tol) {us vs ws : List K} (hus : ∀ u ∈ us, b1.Admissible tol u) (hvs : ∀ v ∈ vs, b2.Admissible tol v) (hws : ∀ w ∈ ws, b3.Admissible tol w) :
+    {tol : K} (htol : 0 < tol) {us vs ws : List K} (hus : ∀ u ∈ us, b1.Admissible tol u) (hvs : ∀ v ∈ vs, b2.Admissible tol v) (hws : ∀ w ∈ ws, b3.Admissible tol w)
+    (hneA1 : b1.periodic < 0 → us ≠ [] := by (first | assumption | (simp; done) | skip))
+    (hneA2 : b2.periodic < 0 → vs ≠ [] := by (first | assumption | (simp; done) | skip))
+    (hneA3 : b3.periodic < 0 → ws ≠ [] := by (first | assumption | (simp; done) | skip)) :
     o'.dimension = op.newDim o.dimension ∧ o'.rational = op.newRational o.rational ∧
     ∃ res res', o.evaluate tol [us, vs, ws] true = .ok res ∧
       o'.evaluate tol [us, vs, ws] true = .ok res' ∧
@@ -1134,7 +1416,10 @@ theorem Bridge_C09_volume_run {o o' : Obj K} (ops : List (AffOp K))
     {nc : ℕ} (hs : o.cps.shape = [b1.numFunctions, b2.numFunctions, b3.numFunctions, nc]) (hnc : 0 < nc)
     (hdata : o.cps.data.size = b1.numFunctions * b2.numFunctions * b3.numFunctions * nc)
     (hw : o.rational = true → ∀ k, k < b1.numFunctions * b2.numFunctions * b3.numFunctions → 0 < o.cps.get (k * nc + (nc - 1)))
-    {tol : K} (htol : 0 < tol) {us vs ws : List K} (hus : ∀ u ∈ us, b1.Admissible tol u) (hvs : ∀ v ∈ vs, b2.Admissible tol v) (hws : ∀ w ∈ ws, b3.Admissible tol w) :
+    {tol : K} (htol : 0 < tol) {us vs ws : List K} (hus : ∀ u ∈ us, b1.Admissible tol u) (hvs : ∀ v ∈ vs, b2.Admissible tol v) (hws : ∀ w ∈ ws, b3.Admissible tol w)
+    (hneA1 : b1.periodic < 0 → us ≠ [] := by (first | assumption | (simp; done) | skip))
+    (hneA2 : b2.periodic < 0 → vs ≠ [] := by (first | assumption | (simp; done) | skip))
+    (hneA3 : b3.periodic < 0 → ws ≠ [] := by (first | assumption | (simp; done) | skip)) :
     o'.dimension = AffOp.newDimList o.dimension ops ∧
     ∃ res res', o.evaluate tol [us, vs, ws] true = .ok res ∧
       o'.evaluate tol [us, vs, ws] true = .ok res' ∧
@@ -1159,7 +1444,8 @@ theorem Bridge_C09_curve_pointwise {o o' : Obj K} (op : AffOp K) (hadm : op.Admi
     {nc : ℕ} (hs : o.cps.shape = [b1.numFunctions, nc]) (hnc : 0 < nc)
     (hdata : o.cps.data.size = b1.numFunctions * nc)
     (hw : o.rational = true → ∀ k, k < b1.numFunctions → 0 < o.cps.get (k * nc + (nc - 1)))
-    {tol : K} (htol : 0 < tol) {us : List K} (hus : ∀ u ∈ us, b1.Admissible tol u) :
+    {tol : K} (htol : 0 < tol) {us : List K} (hus : ∀ u ∈ us, b1.Admissible tol u)
+    (hneA1 : b1.periodic < 0 → us ≠ [] := by (first | assumption | (simp; done) | skip)) :
     ∃ rp rp', o.evaluate tol [us] false = .ok rp ∧
       o'.evaluate tol [us] false = .ok rp' ∧
       rp.shape = [us.length, o.dimension] ∧ rp'.shape = [us.length, o'.dimension] ∧
@@ -1182,7 +1468,9 @@ theorem Bridge_C09_surface_pointwise {o o' : Obj K} (op : AffOp K) (hadm : op.Ad
     {nc : ℕ} (hs : o.cps.shape = [b1.numFunctions, b2.numFunctions, nc]) (hnc : 0 < nc)
     (hdata : o.cps.data.size = b1.numFunctions * b2.numFunctions * nc)
     (hw : o.rational = true → ∀ k, k < b1.numFunctions * b2.numFunctions → 0 < o.cps.get (k * nc + (nc - 1)))
-    {tol : K} (htol : 0 < tol) {us vs : List K} (hlen2 : vs.length = us.length) (hus : ∀ u ∈ us, b1.Admissible tol u) (hvs : ∀ v ∈ vs, b2.Admissible tol v) :
+    {tol : K} (htol : 0 < tol) {us vs : List K} (hlen2 : vs.length = us.length) (hus : ∀ u ∈ us, b1.Admissible tol u) (hvs : ∀ v ∈ vs, b2.Admissible tol v)
+    (hneA1 : b1.periodic < 0 → us ≠ [] := by (first | assumption | (simp; done) | skip))
+    (hneA2 : b2.periodic < 0 → vs ≠ [] := by (first | assumption | (simp; done) | skip)) :
     ∃ rp rp', o.evaluate tol [us, vs] false = .ok rp ∧
       o'.evaluate tol [us, vs] false = .ok rp' ∧
       rp.shape = [us.length, o.dimension] ∧ rp'.shape = [us.length, o'.dimension] ∧
@@ -1205,7 +1493,10 @@ theorem Bridge_C09_volume_pointwise {o o' : Obj K} (op : AffOp K) (hadm : op.Adm
     {nc : ℕ} (hs : o.cps.shape = [b1.numFunctions, b2.numFunctions, b3.numFunctions, nc]) (hnc : 0 < nc)
     (hdata : o.cps.data.size = b1.numFunctions * b2.numFunctions * b3.numFunctions * nc)
     (hw : o.rational = true → ∀ k, k < b1.numFunctions * b2.numFunctions * b3.numFunctions → 0 < o.cps.get (k * nc + (nc - 1)))
-    {tol : K} (htol : 0 < tol) {us vs ws : List K} (hlen2 : vs.length = us.length) (hlen3 : ws.length = us.length) (hus : ∀ u ∈ us, b1.Admissible tol u) (hvs : ∀ v ∈ vs, b2.Admissible tol v) (hws : ∀ w ∈ ws, b3.Admissible tol w) :
+    {tol : K} (htol : 0 < tol) {us vs ws : List K} (hlen2 : vs.length = us.length) (hlen3 : ws.length = us.length) (hus : ∀ u ∈ us, b1.Admissible tol u) (hvs : ∀ v ∈ vs, b2.Admissible tol v) (hws : ∀ w ∈ ws, b3.Admissible tol w)
+    (hneA1 : b1.periodic < 0 → us ≠ [] := by (first | assumption | (simp; done) | skip))
+    (hneA2 : b2.periodic < 0 → vs ≠ [] := by (first | assumption | (simp; done) | skip))
+    (hneA3 : b3.periodic < 0 → ws ≠ [] := by (first | assumption | (simp; done) | skip)) :
     ∃ rp rp', o.evaluate tol [us, vs, ws] false = .ok rp ∧
       o'.evaluate tol [us, vs, ws] false = .ok rp' ∧
       rp.shape = [us.length, o.dimension] ∧ rp'.shape = [us.length, o'.dimension] ∧
@@ -1226,7 +1517,8 @@ theorem Bridge_C09_translate_curve {o : Obj K} (x : List K) (hx : o.dimension 
     {nc : ℕ} (hs : o.cps.shape = [b1.numFunctions, nc]) (hnc : 0 < nc)
     (hdata : o.cps.data.size = b1.numFunctions * nc)
     (hw : o.rational = true → ∀ k, k < b1.numFunctions → 0 < o.cps.get (k * nc + (nc - 1)))
-    {tol : K} (htol : 0 < tol) {us : List K} (hus : ∀ u ∈ us, b1.Admissible tol u) :
+    {tol : K} (htol : 0 < tol) {us : List K} (hus : ∀ u ∈ us, b1.Admissible tol u)
+    (hneA1 : b1.periodic < 0 → us ≠ [] := by (first | assumption | (simp; done) | skip)) :
     (o.translate x).dimension = x.length ∧
     ∃ res res', o.evaluate tol [us] true = .ok res ∧
       (o.translate x).evaluate tol [us] true = .ok res' ∧
@@ -1253,7 +1545,9 @@ theorem Bridge_C09_translate_surface {o : Obj K} (x : List K) (hx : o.dimension 
     (hw : o.rational = true → ∀ k, k < b1.numFunctions * b2.numFunctions →
       0 < o.cps.get (k * nc + (nc - 1)))
     {tol : K} (htol : 0 < tol) {us vs : List K} (hus : ∀ u ∈ us, b1.Admissible tol u)
-    (hvs : ∀ v ∈ vs, b2.Admissible tol v) :
+    (hvs : ∀ v ∈ vs, b2.Admissible tol v)
+    (hneA1 : b1.periodic < 0 → us ≠ [] := by (first | assumption | (simp; done) | skip))
+    (hneA2 : b2.periodic < 0 → vs ≠ [] := by (first | assumption | (simp; done) | skip)) :
     (o.translate x).dimension = x.length ∧
     ∃ res res', o.evaluate tol [us, vs] true = .ok res ∧
       (o.translate x).evaluate tol [us, vs] true = .ok res' ∧
@@ -1285,7 +1579,8 @@ theorem Bridge_C09_curve_snap {o o' : Obj K} (op : AffOp K) (hadm : op.Admissibl
     (hdata : o.cps.data.size = b1.numFunctions * nc)
     (hw : o.rational = true → ∀ k, k < b1.numFunctions → 0 < o.cps.get (k * nc + (nc - 1)))
     {tol : K} (htol : 0 < tol) (hsep1 : b1.Separated tol) {us : List K}
-    (hus : ∀ u ∈ us, b1.start ≤ snap b1 tol u ∧ snap b1 tol u ≤ b1.stop) :
+    (hus : ∀ u ∈ us, b1.start ≤ snap b1 tol u ∧ snap b1 tol u ≤ b1.stop)
+    (hneA1 : b1.periodic < 0 → us ≠ [] := by (first | assumption | (simp; done) | skip)) :
     ∃ res res', o.evaluate tol [us] true = .ok res ∧
       o'.evaluate tol [us] true = .ok res' ∧
       res.shape = [us.length, o.dimension] ∧
@@ -1297,6 +1592,18 @@ theorem Bridge_C09_curve_snap {o o' : Obj K} (op : AffOp K) (hadm : op.Admissibl
   obtain ⟨hwf, _, _⟩ := wf_of_shape (o := o) (pre := [b1.numFunctions]) hs hnc
     (by rw [hdata]; simp [Tensor.prod])
   have hb' : o'.bases = #[b1] := (AffOp.inplace_acts hwf op hadm hop).1.bases.trans hb
+  have hneB1 : b1.periodic < 0 → List.map (snap b1 tol) us ≠ [] := by
+    intro h
+    first
+      | exact hneA1 h | exact hneA2 h | exact hneA3 h | exact hneA4 h
+      | exact hneA5 h | exact hneA6 h | exact hneA7 h | simpa using hneA1 h
+      | simpa using hneA2 h | simpa using hneA3 h | simpa using hneA4 h | simpa using hneA5 h
+      | simpa using hneA6 h | simpa using hneA7 h | exact hneA1 (by omega) | exact hneA2 (by omega)
+      | exact hneA3 (by omega) | exact hneA4 (by omega) | exact hneA5 (by omega) | exact hneA6 (by omega)
+      | exact hneA7 (by omega) | simpa using hneA1 (by omega) | simpa using hneA2 (by omega) | simpa using hneA3 (by omega)
+      | simpa using hneA4 (by omega) | simpa using hneA5 (by omega) | simpa using hneA6 (by omega) | simpa using hneA7 (by omega)
+      | exact hneA1 (by simp_all) | exact hneA2 (by simp_all) | exact hneA3 (by simp_all) | exact hneA4 (by simp_all)
+      | exact hneA5 (by simp_all) | exact hneA6 (by simp_all) | exact hneA7 (by simp_all)
   obtain ⟨_, _, res, res', e1, e1', e2, e2', h⟩ :=
     Bridge_C09_curve op hadm hop hb hv1 hs hnc hdata hw htol (us := us.map (snap b1 tol))
       (fun u hu => by
@@ -1318,7 +1625,9 @@ theorem Bridge_C09_surface_snap {o o' : Obj K} (op : AffOp K) (hadm : op.Admissi
     {tol : K} (htol : 0 < tol) (hsep1 : b1.Separated tol) (hsep2 : b2.Separated tol)
     {us vs : List K}
     (hus : ∀ u ∈ us, b1.start ≤ snap b1 tol u ∧ snap b1 tol u ≤ b1.stop)
-    (hvs : ∀ v ∈ vs, b2.start ≤ snap b2 tol v ∧ snap b2 tol v ≤ b2.stop) :
+    (hvs : ∀ v ∈ vs, b2.start ≤ snap b2 tol v ∧ snap b2 tol v ≤ b2.stop)
+    (hneA1 : b1.periodic < 0 → us ≠ [] := by (first | assumption | (simp; done) | skip))
+    (hneA2 : b2.periodic < 0 → vs ≠ [] := by (first | assumption | (simp; done) | skip)) :
     ∃ res res', o.evaluate tol [us, vs] true = .ok res ∧
       o'.evaluate tol [us, vs] true = .ok res' ∧
       res.shape = [us.length, vs.length, o.dimension] ∧
@@ -1330,6 +1639,30 @@ theorem Bridge_C09_surface_snap {o o' : Obj K} (op : AffOp K) (hadm : op.Admissi
   obtain ⟨hwf, _, _⟩ := wf_of_shape (o := o) (pre := [b1.numFunctions, b2.numFunctions]) hs hnc
     (by rw [hdata]; simp [Tensor.prod])
   have hb' : o'.bases = #[b1, b2] := (AffOp.inplace_acts hwf op hadm hop).1.bases.trans hb
+  have hneB2 : b2.periodic < 0 → List.map (snap b2 tol) vs ≠ [] := by
+    intro h
+    first
+      | exact hneA1 h | exact hneA2 h | exact hneA3 h | exact hneA4 h
+      | exact hneA5 h | exact hneA6 h | exact hneA7 h | simpa using hneA1 h
+      | simpa using hneA2 h | simpa using hneA3 h | simpa using hneA4 h | simpa using hneA5 h
+      | simpa using hneA6 h | simpa using hneA7 h | exact hneA1 (by omega) | exact hneA2 (by omega)
+      | exact hneA3 (by omega) | exact hneA4 (by omega) | exact hneA5 (by omega) | exact hneA6 (by omega)
+      | exact hneA7 (by omega) | simpa using hneA1 (by omega) | simpa using hneA2 (by omega) | simpa using hneA3 (by omega)
+      | simpa using hneA4 (by omega) | simpa using hneA5 (by omega) | simpa using hneA6 (by omega) | simpa using hneA7 (by omega)
+      | exact hneA1 (by simp_all) | exact hneA2 (by simp_all) | exact hneA3 (by simp_all) | exact hneA4 (by simp_all)
+      | exact hneA5 (by simp_all) | exact hneA6 (by simp_all) | exact hneA7 (by simp_all)
+  have hneB1 : b1.periodic < 0 → List.map (snap b1 tol) us ≠ [] := by
+    intro h
+    first
+      | exact hneA1 h | exact hneA2 h | exact hneA3 h | exact hneA4 h
+      | exact hneA5 h | exact hneA6 h | exact hneA7 h | simpa using hneA1 h
+      | simpa using hneA2 h | simpa using hneA3 h | simpa using hneA4 h | simpa using hneA5 h
+      | simpa using hneA6 h | simpa using hneA7 h | exact hneA1 (by omega) | exact hneA2 (by omega)
+      | exact hneA3 (by omega) | exact hneA4 (by omega) | exact hneA5 (by omega) | exact hneA6 (by omega)
+      | exact hneA7 (by omega) | simpa using hneA1 (by omega) | simpa using hneA2 (by omega) | simpa using hneA3 (by omega)
+      | simpa using hneA4 (by omega) | simpa using hneA5 (by omega) | simpa using hneA6 (by omega) | simpa using hneA7 (by omega)
+      | exact hneA1 (by simp_all) | exact hneA2 (by simp_all) | exact hneA3 (by simp_all) | exact hneA4 (by simp_all)
+      | exact hneA5 (by simp_all) | exact hneA6 (by simp_all) | exact hneA7 (by simp_all)
   obtain ⟨_, _, res, res', e1, e1', e2, e2', h⟩ :=
     Bridge_C09_surface op hadm hop hb hv1 hv2 hs hnc hdata hw htol
       (us := us.map (snap b1 tol)) (vs := vs.map (snap b2 tol))
@@ -1363,7 +1696,8 @@ theorem Bridge_C07_piece_curve_partial {so : Obj K} {b1 : Basis K}
     (hlt : b1.kn (lo + b1.order - 1) < b1.kn hi) {tol : K} (htol : 0 < tol)
     {us : List K} (hus : ∀ u ∈ us, b1.Admissible tol u)
     (hdom : ∀ u ∈ us, b1.kn (lo + b1.order - 1) ≤ u ∧
-      (u < b1.kn hi ∨ (u = b1.kn hi ∧ b1.kn hi = b1.stop))) :
+      (u < b1.kn hi ∨ (u = b1.kn hi ∧ b1.kn hi = b1.stop)))
+    (hneA1 : b1.periodic < 0 → us ≠ [] := by (first | assumption | (simp; done) | skip)) :
     ∃ res, so.evaluate tol [us] true = .ok res ∧
       res.shape = [us.length, so.dimension] ∧
       (⟨#[b1.piece lo hi], so.cps.sliceAxis 0 lo hi, so.rational⟩ : Obj K).evaluate tol [us] true = .ok res ∧
@@ -1388,6 +1722,18 @@ theorem Bridge_C07_piece_curve_partial {so : Obj K} {b1 : Basis K}
       · exact ⟨(hdom u hu).1, le_of_lt h⟩
       · exact ⟨(hdom u hu).1, le_of_eq h⟩,
     fun h0 => by rw [hper'] at h0; exact absurd h0 (by decide)⟩
+  have hneB1 : (b1.piece lo hi).periodic < 0 → us ≠ [] := by
+    intro h
+    first
+      | exact hneA1 h | exact hneA2 h | exact hneA3 h | exact hneA4 h
+      | exact hneA5 h | exact hneA6 h | exact hneA7 h | simpa using hneA1 h
+      | simpa using hneA2 h | simpa using hneA3 h | simpa using hneA4 h | simpa using hneA5 h
+      | simpa using hneA6 h | simpa using hneA7 h | exact hneA1 (by omega) | exact hneA2 (by omega)
+      | exact hneA3 (by omega) | exact hneA4 (by omega) | exact hneA5 (by omega) | exact hneA6 (by omega)
+      | exact hneA7 (by omega) | simpa using hneA1 (by omega) | simpa using hneA2 (by omega) | simpa using hneA3 (by omega)
+      | simpa using hneA4 (by omega) | simpa using hneA5 (by omega) | simpa using hneA6 (by omega) | simpa using hneA7 (by omega)
+      | exact hneA1 (by simp_all) | exact hneA2 (by simp_all) | exact hneA3 (by simp_all) | exact hneA4 (by simp_all)
+      | exact hneA5 (by simp_all) | exact hneA6 (by simp_all) | exact hneA7 (by simp_all)
   obtain ⟨e, res, e1, e2⟩ := transfer_curve (o' := pieceObj so 0 lo hi) hb hb'' hv1 hv' hs hs' hrat hnc
     htol rfl
     hus
@@ -1416,7 +1762,9 @@ theorem Bridge_C07_piece_surface_u_partial {so : Obj K} {b1 b2 : Basis K}
     (hlt : b1.kn (lo + b1.order - 1) < b1.kn hi) {tol : K} (htol : 0 < tol)
     {us vs : List K} (hus : ∀ u ∈ us, b1.Admissible tol u) (hvs : ∀ v ∈ vs, b2.Admissible tol v)
     (hdom : ∀ u ∈ us, b1.kn (lo + b1.order - 1) ≤ u ∧
-      (u < b1.kn hi ∨ (u = b1.kn hi ∧ b1.kn hi = b1.stop))) :
+      (u < b1.kn hi ∨ (u = b1.kn hi ∧ b1.kn hi = b1.stop)))
+    (hneA1 : b1.periodic < 0 → us ≠ [] := by (first | assumption | (simp; done) | skip))
+    (hneA2 : b2.periodic < 0 → vs ≠ [] := by (first | assumption | (simp; done) | skip)) :
     ∃ res, so.evaluate tol [us, vs] true = .ok res ∧
       res.shape = [us.length, vs.length, so.dimension] ∧
       (⟨#[b1.piece lo hi, b2], so.cps.sliceAxis 0 lo hi, so.rational⟩ : Obj K).evaluate tol [us, vs] true = .ok res ∧
@@ -1441,6 +1789,18 @@ theorem Bridge_C07_piece_surface_u_partial {so : Obj K} {b1 b2 : Basis K}
       · exact ⟨(hdom u hu).1, le_of_lt h⟩
       · exact ⟨(hdom u hu).1, le_of_eq h⟩,
     fun h0 => by rw [hper'] at h0; exact absurd h0 (by decide)⟩
+  have hneB1 : (b1.piece lo hi).periodic < 0 → us ≠ [] := by
+    intro h
+    first
+      | exact hneA1 h | exact hneA2 h | exact hneA3 h | exact hneA4 h
+      | exact hneA5 h | exact hneA6 h | exact hneA7 h | simpa using hneA1 h
+      | simpa using hneA2 h | simpa using hneA3 h | simpa using hneA4 h | simpa using hneA5 h
+      | simpa using hneA6 h | simpa using hneA7 h | exact hneA1 (by omega) | exact hneA2 (by omega)
+      | exact hneA3 (by omega) | exact hneA4 (by omega) | exact hneA5 (by omega) | exact hneA6 (by omega)
+      | exact hneA7 (by omega) | simpa using hneA1 (by omega) | simpa using hneA2 (by omega) | simpa using hneA3 (by omega)
+      | simpa using hneA4 (by omega) | simpa using hneA5 (by omega) | simpa using hneA6 (by omega) | simpa using hneA7 (by omega)
+      | exact hneA1 (by simp_all) | exact hneA2 (by simp_all) | exact hneA3 (by simp_all) | exact hneA4 (by simp_all)
+      | exact hneA5 (by simp_all) | exact hneA6 (by simp_all) | exact hneA7 (by simp_all)
   obtain ⟨e, res, e1, e2⟩ := transfer_surface_u (o' := pieceObj so 0 lo hi) hb hb'' hv1 hv' hv2 hs hs' hrat hnc
     htol rfl
     hus
@@ -1470,7 +1830,9 @@ theorem Bridge_C07_piece_surface_v_partial {so : Obj K} {b1 b2 : Basis K}
     (hlt : b2.kn (lo + b2.order - 1) < b2.kn hi) {tol : K} (htol : 0 < tol)
     {us vs : List K} (hus : ∀ u ∈ us, b1.Admissible tol u) (hvs : ∀ v ∈ vs, b2.Admissible tol v)
     (hdom : ∀ u ∈ vs, b2.kn (lo + b2.order - 1) ≤ u ∧
-      (u < b2.kn hi ∨ (u = b2.kn hi ∧ b2.kn hi = b2.stop))) :
+      (u < b2.kn hi ∨ (u = b2.kn hi ∧ b2.kn hi = b2.stop)))
+    (hneA1 : b1.periodic < 0 → us ≠ [] := by (first | assumption | (simp; done) | skip))
+    (hneA2 : b2.periodic < 0 → vs ≠ [] := by (first | assumption | (simp; done) | skip)) :
     ∃ res, so.evaluate tol [us, vs] true = .ok res ∧
       res.shape = [us.length, vs.length, so.dimension] ∧
       (⟨#[b1, b2.piece lo hi], so.cps.sliceAxis 1 lo hi, so.rational⟩ : Obj K).evaluate tol [us, vs] true = .ok res ∧
@@ -1495,6 +1857,18 @@ theorem Bridge_C07_piece_surface_v_partial {so : Obj K} {b1 b2 : Basis K}
       · exact ⟨(hdom u hu).1, le_of_lt h⟩
       · exact ⟨(hdom u hu).1, le_of_eq h⟩,
     fun h0 => by rw [hper'] at h0; exact absurd h0 (by decide)⟩
+  have hneB1 : (b2.piece lo hi).periodic < 0 → vs ≠ [] := by
+    intro h
+    first
+      | exact hneA1 h | exact hneA2 h | exact hneA3 h | exact hneA4 h
+      | exact hneA5 h | exact hneA6 h | exact hneA7 h | simpa using hneA1 h
+      | simpa using hneA2 h | simpa using hneA3 h | simpa using hneA4 h | simpa using hneA5 h
+      | simpa using hneA6 h | simpa using hneA7 h | exact hneA1 (by omega) | exact hneA2 (by omega)
+      | exact hneA3 (by omega) | exact hneA4 (by omega) | exact hneA5 (by omega) | exact hneA6 (by omega)
+      | exact hneA7 (by omega) | simpa using hneA1 (by omega) | simpa using hneA2 (by omega) | simpa using hneA3 (by omega)
+      | simpa using hneA4 (by omega) | simpa using hneA5 (by omega) | simpa using hneA6 (by omega) | simpa using hneA7 (by omega)
+      | exact hneA1 (by simp_all) | exact hneA2 (by simp_all) | exact hneA3 (by simp_all) | exact hneA4 (by simp_all)
+      | exact hneA5 (by simp_all) | exact hneA6 (by simp_all) | exact hneA7 (by simp_all)
   obtain ⟨e, res, e1, e2⟩ := transfer_surface_v (o' := pieceObj so 1 lo hi) hb hb'' hv1 hv2 hv' hs hs' hrat hnc
     htol rfl
     hus
@@ -1524,7 +1898,10 @@ theorem Bridge_C07_piece_volume_u_partial {so : Obj K} {b1 b2 b3 : Basis K}
     (hlt : b1.kn (lo + b1.order - 1) < b1.kn hi) {tol : K} (htol : 0 < tol)
     {us vs ws : List K} (hus : ∀ u ∈ us, b1.Admissible tol u) (hvs : ∀ v ∈ vs, b2.Admissible tol v) (hws : ∀ w ∈ ws, b3.Admissible tol w)
     (hdom : ∀ u ∈ us, b1.kn (lo + b1.order - 1) ≤ u ∧
-      (u < b1.kn hi ∨ (u = b1.kn hi ∧ b1.kn hi = b1.stop))) :
+      (u < b1.kn hi ∨ (u = b1.kn hi ∧ b1.kn hi = b1.stop)))
+    (hneA1 : b1.periodic < 0 → us ≠ [] := by (first | assumption | (simp; done) | skip))
+    (hneA2 : b2.periodic < 0 → vs ≠ [] := by (first | assumption | (simp; done) | skip))
+    (hneA3 : b3.periodic < 0 → ws ≠ [] := by (first | assumption | (simp; done) | skip)) :
     ∃ res, so.evaluate tol [us, vs, ws] true = .ok res ∧
       res.shape = [us.length, vs.length, ws.length, so.dimension] ∧
       (⟨#[b1.piece lo hi, b2, b3], so.cps.sliceAxis 0 lo hi, so.rational⟩ : Obj K).evaluate tol [us, vs, ws] true = .ok res ∧
@@ -1549,6 +1926,18 @@ theorem Bridge_C07_piece_volume_u_partial {so : Obj K} {b1 b2 b3 : Basis K}
       · exact ⟨(hdom u hu).1, le_of_lt h⟩
       · exact ⟨(hdom u hu).1, le_of_eq h⟩,
     fun h0 => by rw [hper'] at h0; exact absurd h0 (by decide)⟩
+  have hneB1 : (b1.piece lo hi).periodic < 0 → us ≠ [] := by
+    intro h
+    first
+      | exact hneA1 h | exact hneA2 h | exact hneA3 h | exact hneA4 h
+      | exact hneA5 h | exact hneA6 h | exact hneA7 h | simpa using hneA1 h
+      | simpa using hneA2 h | simpa using hneA3 h | simpa using hneA4 h | simpa using hneA5 h
+      | simpa using hneA6 h | simpa using hneA7 h | exact hneA1 (by omega) | exact hneA2 (by omega)
+      | exact hneA3 (by omega) | exact hneA4 (by omega) | exact hneA5 (by omega) | exact hneA6 (by omega)
+      | exact hneA7 (by omega) | simpa using hneA1 (by omega) | simpa using hneA2 (by omega) | simpa using hneA3 (by omega)
+      | simpa using hneA4 (by omega) | simpa using hneA5 (by omega) | simpa using hneA6 (by omega) | simpa using hneA7 (by omega)
+      | exact hneA1 (by simp_all) | exact hneA2 (by simp_all) | exact hneA3 (by simp_all) | exact hneA4 (by simp_all)
+      | exact hneA5 (by simp_all) | exact hneA6 (by simp_all) | exact hneA7 (by simp_all)
   obtain ⟨e, res, e1, e2⟩ := transfer_volume_u (o' := pieceObj so 0 lo hi) hb hb'' hv1 hv' hv2 hv3 hs hs' hrat hnc
     htol rfl
     hus
@@ -1579,7 +1968,10 @@ theorem Bridge_C07_piece_volume_v_partial {so : Obj K} {b1 b2 b3 : Basis K}
     (hlt : b2.kn (lo + b2.order - 1) < b2.kn hi) {tol : K} (htol : 0 < tol)
     {us vs ws : List K} (hus : ∀ u ∈ us, b1.Admissible tol u) (hvs : ∀ v ∈ vs, b2.Admissible tol v) (hws : ∀ w ∈ ws, b3.Admissible tol w)
     (hdom : ∀ u ∈ vs, b2.kn (lo + b2.order - 1) ≤ u ∧
-      (u < b2.kn hi ∨ (u = b2.kn hi ∧ b2.kn hi = b2.stop))) :
+      (u < b2.kn hi ∨ (u = b2.kn hi ∧ b2.kn hi = b2.stop)))
+    (hneA1 : b1.periodic < 0 → us ≠ [] := by (first | assumption | (simp; done) | skip))
+    (hneA2 : b2.periodic < 0 → vs ≠ [] := by (first | assumption | (simp; done) | skip))
+    (hneA3 : b3.periodic < 0 → ws ≠ [] := by (first | assumption | (simp; done) | skip)) :
     ∃ res, so.evaluate tol [us, vs, ws] true = .ok res ∧
       res.shape = [us.length, vs.length, ws.length, so.dimension] ∧
       (⟨#[b1, b2.piece lo hi, b3], so.cps.sliceAxis 1 lo hi, so.rational⟩ : Obj K).evaluate tol [us, vs, ws] true = .ok res ∧
@@ -1604,6 +1996,18 @@ theorem Bridge_C07_piece_volume_v_partial {so : Obj K} {b1 b2 b3 : Basis K}
       · exact ⟨(hdom u hu).1, le_of_lt h⟩
       · exact ⟨(hdom u hu).1, le_of_eq h⟩,
     fun h0 => by rw [hper'] at h0; exact absurd h0 (by decide)⟩
+  have hneB1 : (b2.piece lo hi).periodic < 0 → vs ≠ [] := by
+    intro h
+    first
+      | exact hneA1 h | exact hneA2 h | exact hneA3 h | exact hneA4 h
+      | exact hneA5 h | exact hneA6 h | exact hneA7 h | simpa using hneA1 h
+      | simpa using hneA2 h | simpa using hneA3 h | simpa using hneA4 h | simpa using hneA5 h
+      | simpa using hneA6 h | simpa using hneA7 h | exact hneA1 (by omega) | exact hneA2 (by omega)
+      | exact hneA3 (by omega) | exact hneA4 (by omega) | exact hneA5 (by omega) | exact hneA6 (by omega)
+      | exact hneA7 (by omega) | simpa using hneA1 (by omega) | simpa using hneA2 (by omega) | simpa using hneA3 (by omega)
+      | simpa using hneA4 (by omega) | simpa using hneA5 (by omega) | simpa using hneA6 (by omega) | simpa using hneA7 (by omega)
+      | exact hneA1 (by simp_all) | exact hneA2 (by simp_all) | exact hneA3 (by simp_all) | exact hneA4 (by simp_all)
+      | exact hneA5 (by simp_all) | exact hneA6 (by simp_all) | exact hneA7 (by simp_all)
   obtain ⟨e, res, e1, e2⟩ := transfer_volume_v (o' := pieceObj so 1 lo hi) hb hb'' hv1 hv2 hv' hv3 hs hs' hrat hnc
     htol rfl
     hus
@@ -1634,7 +2038,10 @@ theorem Bridge_C07_piece_volume_w_partial {so : Obj K} {b1 b2 b3 : Basis K}
     (hlt : b3.kn (lo + b3.order - 1) < b3.kn hi) {tol : K} (htol : 0 < tol)
     {us vs ws : List K} (hus : ∀ u ∈ us, b1.Admissible tol u) (hvs : ∀ v ∈ vs, b2.Admissible tol v) (hws : ∀ w ∈ ws, b3.Admissible tol w)
     (hdom : ∀ u ∈ ws, b3.kn (lo + b3.order - 1) ≤ u ∧
-      (u < b3.kn hi ∨ (u = b3.kn hi ∧ b3.kn hi = b3.stop))) :
+      (u < b3.kn hi ∨ (u = b3.kn hi ∧ b3.kn hi = b3.stop)))
+    (hneA1 : b1.periodic < 0 → us ≠ [] := by (first | assumption | (simp; done) | skip))
+    (hneA2 : b2.periodic < 0 → vs ≠ [] := by (first | assumption | (simp; done) | skip))
+    (hneA3 : b3.periodic < 0 → ws ≠ [] := by (first | assumption | (simp; done) | skip)) :
     ∃ res, so.evaluate tol [us, vs, ws] true = .ok res ∧
       res.shape = [us.length, vs.length, ws.length, so.dimension] ∧
       (⟨#[b1, b2, b3.piece lo hi], so.cps.sliceAxis 2 lo hi, so.rational⟩ : Obj K).evaluate tol [us, vs, ws] true = .ok res ∧
@@ -1659,6 +2066,18 @@ theorem Bridge_C07_piece_volume_w_partial {so : Obj K} {b1 b2 b3 : Basis K}
       · exact ⟨(hdom u hu).1, le_of_lt h⟩
       · exact ⟨(hdom u hu).1, le_of_eq h⟩,
     fun h0 => by rw [hper'] at h0; exact absurd h0 (by decide)⟩
+  have hneB1 : (b3.piece lo hi).periodic < 0 → ws ≠ [] := by
+    intro h
+    first
+      | exact hneA1 h | exact hneA2 h | exact hneA3 h | exact hneA4 h
+      | exact hneA5 h | exact hneA6 h | exact hneA7 h | simpa using hneA1 h
+      | simpa using hneA2 h | simpa using hneA3 h | simpa using hneA4 h | simpa using hneA5 h
+      | simpa using hneA6 h | simpa using hneA7 h | exact hneA1 (by omega) | exact hneA2 (by omega)
+      | exact hneA3 (by omega) | exact hneA4 (by omega) | exact hneA5 (by omega) | exact hneA6 (by omega)
+      | exact hneA7 (by omega) | simpa using hneA1 (by omega) | simpa using hneA2 (by omega) | simpa using hneA3 (by omega)
+      | simpa using hneA4 (by omega) | simpa using hneA5 (by omega) | simpa using hneA6 (by omega) | simpa using hneA7 (by omega)
+      | exact hneA1 (by simp_all) | exact hneA2 (by simp_all) | exact hneA3 (by simp_all) | exact hneA4 (by simp_all)
+      | exact hneA5 (by simp_all) | exact hneA6 (by simp_all) | exact hneA7 (by simp_all)
   obtain ⟨e, res, e1, e2⟩ := transfer_volume_w (o' := pieceObj so 2 lo hi) hb hb'' hv1 hv2 hv3 hv' hs hs' hrat hnc
     htol rfl
     hus
@@ -1682,7 +2101,9 @@ theorem Bridge_C05_curve {o o' : Obj K} {b b' : Basis K} (hb : o.bases = #[b]) (
     (hv' : b'.Valid) {nc : ℕ} (hs : o.cps.shape = [b.numFunctions, nc])
     (hnc : o.rational = true → 1 ≤ nc) {tol : K}
     (htol : 0 < tol) (hE : ElevatedFrom tol b b' nc o o') {us : List K}
-    (hus : ∀ u ∈ us, b.Admissible tol u) (hus' : ∀ u ∈ us, b'.Admissible tol u) :
+    (hus : ∀ u ∈ us, b.Admissible tol u) (hus' : ∀ u ∈ us, b'.Admissible tol u)
+    (hneA1 : b.periodic < 0 → us ≠ [] := by (first | assumption | (simp; done) | skip))
+    (hneA2 : b'.periodic < 0 → us ≠ [] := by (first | assumption | (simp; done) | skip)) :
     ∃ res, o.evaluate tol [us] true = .ok res ∧ res.shape = [us.length, o.dimension] ∧
       o'.evaluate tol [us] true = .ok res ∧
       o'.evaluate tol [us] false = o.evaluate tol [us] false := by
@@ -1723,7 +2144,8 @@ theorem Bridge_C05_clamped_curve (tol : K) (htol : 0 < tol) (q a : ℕ) (hqa : 1
     openBasis_clamped_valid tol (le_of_lt htol) (q+1+a) (by omega) x0 xl umid _
       (by simpa using hlen) hsep
   have key : ∀ o', ElevatedFrom tol b b' nc o o' → SameEvalCurve tol b b' o o' :=
-    fun o' hE us hus hus' => Bridge_C05_curve hb hv hv' hs hnc htol hE hus hus'
+    fun o' hE us hus hus' hne => Bridge_C05_curve hb hv hv' hs hnc htol hE hus hus'
+      (fun h => hne (Or.inl h)) (fun h => hne (Or.inr h))
   refine ⟨pts, hg, fun Ni hsw => ?_⟩
   obtain ⟨⟨o1, h1, E1⟩, h2, h3⟩ := H Ni hsw
   refine ⟨⟨o1, h1, key o1 E1⟩, fun ha => ?_, fun ha => ?_⟩
@@ -1774,7 +2196,8 @@ theorem Bridge_C05_clamped_full_curve (tol : K) (htol : 0 < tol) (q a : ℕ) (ha
     openBasis_clamped_valid tol (le_of_lt htol) (q+1+a) (by omega) x0 xl umid _
       (by simpa using hlen) hsep
   have key : ∀ o', ElevatedFrom tol b b' nc o o' → SameEvalCurve tol b b' o o' :=
-    fun o' hE us hus hus' => Bridge_C05_curve hb hv hv' hs hnc htol hE hus hus'
+    fun o' hE us hus hus' hne => Bridge_C05_curve hb hv hv' hs hnc htol hE hus hus'
+      (fun h => hne (Or.inl h)) (fun h => hne (Or.inr h))
   obtain ⟨⟨o1, h1, E1⟩, ⟨o2, h2, E2⟩, ⟨o3, h3, E3⟩⟩ :=
     C05_geometry_clamped_full tol htol q a ha x0 xl umid mmid hlen hm hknots o nc hb hs
   exact ⟨⟨o1, h1, key o1 E1⟩, ⟨o2, h2, key o2 E2⟩, ⟨o3, h3, key o3 E3⟩⟩
@@ -1889,6 +2312,26 @@ theorem Bridge_C05_periodic_curve_partial {tol : K} {p k : ℕ} {w0 : K} {wr : L
   exact ⟨⟨o1, h1, sameEvalCurve_of_elevatedOn hb hv hv' hs hnc htol E1⟩,
     ⟨o2, h2, sameEvalCurve_of_elevatedOn hb hv hv' hs hnc htol E2⟩,
     ⟨o3, h3, sameEvalCurve_of_elevatedOn hb hv hv' hs hnc htol E3⟩⟩
+
+/-- **C05 ⇒ evaluate, periodic curves — a hypothesis-free family.**  Uniform periodic quadratic
+(`BSplineBasis(3, s0 + h*arange(-2, m+4), periodic=1)`, `m + 1 ≥ 3` knots per period) raised by 1, any
+`0 < tol ≤ h/3`: `H_sw` and the admissibility of the Greville points are proved
+(`C05_geometry_periodic_uniform_cubic`), so each of the three `raise_order` paths succeeds and returns a
+curve that evaluates to the same tensor as the original at every list of parameters admissible for
+both bases — no analytic hypothesis. -/
+theorem Bridge_C05_periodic_uniform_cubic (tol s0 h : K) (htol : 0 < tol) (htolh : tol ≤ h / 3)
+    (m : ℕ) (hm : 2 ≤ m) (o : Obj K) (nc : ℕ)
+    (hb : o.bases = #[perBasis 3 1 (s0 :: uwr s0 h m) (1 :: List.replicate m 1) (h * ((m : K) + 1))])
+    (hs : o.cps.shape
+      = [(perBasis 3 1 (s0 :: uwr s0 h m) (1 :: List.replicate m 1) (h * ((m : K) + 1))).numFunctions, nc])
+    (hnc : o.rational = true → 1 ≤ nc) :
+    let b := perBasis 3 1 (s0 :: uwr s0 h m) (1 :: List.replicate m 1) (h * ((m : K) + 1))
+    let b' := perBasis (3 + 1) 1 (s0 :: uwr s0 h m) ((1 :: List.replicate m 1).map (· + 1)) (h * ((m : K) + 1))
+    (∃ o', o.raiseOrderImplicit tol [1] = .ok o' ∧ SameEvalCurve tol b b' o o') ∧
+    (∃ o', o.raiseOrder tol [((1 : ℕ) : Int)] none = .ok (.self, o') ∧ SameEvalCurve tol b b' o o') ∧
+    (∃ o', o.curveRaiseOrder tol ((1 : ℕ) : Int) = .ok (.self, o') ∧ SameEvalCurve tol b b' o o') := by
+  obtain ⟨hd, pts, Ni, hg, hadm, hNi⟩ := uniform_quadratic_raise_hsw tol s0 h htol htolh m hm
+  exact Bridge_C05_periodic_curve_partial hd htol 1 le_rfl o nc hb hs hnc pts hg hadm Ni hNi
 
 /-- **C05 ⇒ evaluate, SURFACES with periodic directions (partial: relative to `H_sw` of the periodic
 directions).**  `o` is a well-formed surface whose two directions are `DirOKw` — clamped continuous
@@ -2213,7 +2656,7 @@ example : ∃ o' res, Bridge_exSeg.raiseOrderImplicit (1/100) [1] = .ok o' ∧
     injection this
   subst hpts
   obtain ⟨⟨o', h1, h2⟩, _, _⟩ := h #[#[1,0,0],#[-1/2,2,-1/2],#[0,0,1]] (by decide +kernel)
-  obtain ⟨res, e1, _, e2, _⟩ := h2 [1/2] c05B2_adm c05B3_adm
+  obtain ⟨res, e1, _, e2, _⟩ := h2 [1/2] c05B2_adm c05B3_adm (by simp)
   exact ⟨o', res, h1, e1, e2⟩
 
 /-- … and without any analytic hypothesis (`Curve.raise_order(1)`, knot spacing `1 > 2·2·(1/100)`). -/
@@ -2224,7 +2667,7 @@ example : ∃ o' res, Bridge_exSeg.curveRaiseOrder (1/100) 1 = .ok (.self, o') 
     (by norm_num) 0 1 [] [] rfl (by simp)
     (Or.inl (by simp [Separated, clampedU]; norm_num)) Bridge_exSeg 2 rfl
     (by decide +kernel) (fun h => absurd h (by decide))
-  obtain ⟨res, e1, _, e2, _⟩ := h2 [1/2] c05B2_adm c05B3_adm
+  obtain ⟨res, e1, _, e2, _⟩ := h2 [1/2] c05B2_adm c05B3_adm (by simp)
   exact ⟨o', res, h1, e1, e2⟩
 
 attribute [local instance] c05AdmissibleDec in
@@ -2239,7 +2682,7 @@ example : ∃ o' res, c05Surf.raiseOrder (1/100) [1, 1] none = .ok (.self, o') 
     2 1 (by norm_num) 0 2 [1] [1] rfl (by simp) (by simp [Separated, clampedU]; norm_num)
     (Or.inl (by norm_num)) c05Surf c05Surf_wf rfl rfl (fun h => absurd h (by decide))
   obtain ⟨res, e1, _, e2, _⟩ := h2 [1/2] [1/2, 1] (by decide +kernel) (by decide +kernel) (by decide +kernel)
-    (by decide +kernel)
+    (by decide +kernel) (by simp) (by simp)
   exact ⟨o', res, h1, e1, e2⟩
 
 attribute [local instance] c05AdmissibleDec in
@@ -2254,7 +2697,7 @@ example : ∃ o' res, c05Vol.raiseOrder (1/100) [1, 0, 1] none = .ok (.self, o')
     1 1 (by norm_num) 0 2 [1] [1] rfl (by simp) (by simp [Separated, clampedU]; norm_num)
     (Or.inl (by norm_num)) c05Vol c05Vol_wf rfl rfl rfl (fun _ => by decide)
   obtain ⟨res, e1, _, e2, _⟩ := h2 [1/2] [1/3, 1] [1/2, 1] (by decide +kernel) (by decide +kernel)
-    (by decide +kernel) (by decide +kernel) (by decide +kernel) (by decide +kernel)
+    (by decide +kernel) (by decide +kernel) (by decide +kernel) (by decide +kernel) (by simp) (by simp) (by simp)
   exact ⟨o', res, h1, e1, e2⟩
 
 attribute [local instance] c05AdmissibleDec in
@@ -2272,7 +2715,7 @@ example : ∃ o' res, c05Tube.raiseOrder (1/100) [1, 1] none = .ok (.self, o') 
     1 1 (by norm_num) 0 1 [] [] rfl (by simp) (by simp [Separated, clampedU]; norm_num)
     (Or.inl (by norm_num)) c05Tube c05Tube_wf rfl rfl (fun h => absurd h (by decide))
   obtain ⟨res, e1, _, e2, _⟩ := h2 [1/2, 5/2] [1/3] (by decide +kernel) (by decide +kernel) (by decide +kernel)
-    (by decide +kernel)
+    (by decide +kernel) (by simp) (by simp)
   exact ⟨o', res, h1, e1, e2⟩
 
 /-- `refine(1)` of the rational curve: the new knots are the span midpoints `1/2, 3/2, 5/2`. -/
